@@ -1,8 +1,10 @@
 /-
-  Rrss.Lemmas.RoundTripEof — C02, parser half: programs whose last line ends with the tokens
-  (the final `Newline` and the blank lines that close the open blocks omitted).
+  Rrss.Lemmas.RoundTripEof — C02, parser half: programs whose last lines end with the tokens. The
+  general form (`…D d`: the last `d` newlines of the input omitted, down to the `Newline` of a
+  header line whose block is empty), and the special case `…E` (all of them, except after a
+  header) as its instance at `eofDepth`.
 -/
-import Rrss.Lemmas.RoundTripBlock
+import Rrss.Lemmas.RoundTripSane
 namespace Rrss
 namespace Grammar
 open Parser
@@ -12,6 +14,911 @@ variable {N : Type} [CharOps]
 set_option linter.unusedSimpArgs false
 
 /-! ### unfolding -/
+
+theorem simple_toksD (d : Nat) (s : SimpleStmt N) (eol : Eol) (c : Choices N) :
+    (Statement.simple s eol).toksD d c = s.toks c := by
+  cases d <;> rfl
+
+theorem ifS_none_toksD (d : Nat) (cond : Expression N) (eol : Eol) (t : List (Statement N)) (c : Choices N) :
+    (Statement.ifS cond eol t none).toksD d c
+      = tk (.kw .if_) (c.sub 0) :: (unparse cond (c.sub 1) ++
+          headerTailD d eol t (c.sub 2) (c.sub 3) (linesToksD d t (c.sub 3))) := by
+  cases d <;> rfl
+
+theorem ifS_some_toksD (d : Nat) (cond : Expression N) (eol : Eol) (t b : List (Statement N)) (c : Choices N) :
+    (Statement.ifS cond eol t (some b)).toksD d c
+      = tk (.kw .if_) (c.sub 0) :: (unparse cond (c.sub 1) ++ (eolToks eol (c.sub 2) ++
+          (blockToks t (c.sub 3) ++ (tk (.kw .else_) (c.sub 4) ::
+            elseTailD d b (c.sub 5) (c.sub 6) (linesToksD d b (c.sub 6)))))) := by
+  cases d <;> cases t <;> rfl
+
+theorem whileS_toksD (d : Nat) (cond : Expression N) (eol : Eol) (b : List (Statement N)) (c : Choices N) :
+    (Statement.whileS cond eol b).toksD d c
+      = tk (.kw .while_) (c.sub 0) :: (unparse cond (c.sub 1) ++
+          headerTailD d eol b (c.sub 2) (c.sub 3) (linesToksD d b (c.sub 3))) := by
+  cases d <;> rfl
+
+theorem untilS_toksD (d : Nat) (cond : Expression N) (eol : Eol) (b : List (Statement N)) (c : Choices N) :
+    (Statement.untilS cond eol b).toksD d c
+      = tk (.kw .until_) (c.sub 0) :: (unparse cond (c.sub 1) ++
+          headerTailD d eol b (c.sub 2) (c.sub 3) (linesToksD d b (c.sub 3))) := by
+  cases d <;> rfl
+
+theorem func_toksD (d : Nat) (f p : VarSpec) (ps : List VarSpec) (eol : Eol) (b : List (Statement N))
+    (c : Choices N) :
+    (Statement.func f p ps eol b).toksD d c
+      = f.toks (c.sub 0) ++ tk (.kw .takes) (c.sub 1) :: (p.toks (c.sub 2) ++ (paramsToks ps (c.sub 3) ++
+          headerTailD d eol b (c.sub 4) (c.sub 5) (fnLinesToksD d b (c.sub 5)))) := by
+  cases d <;> rfl
+
+theorem linesD_nil (d : Nat) (c : Choices N) : linesToksD d ([] : List (Statement N)) c = [] := by
+  cases d <;> rfl
+theorem linesD_one_zero (s : Statement N) (c : Choices N) :
+    linesToksD 0 [s] c = s.toks (c.sub 0) ++ s.eolToks (c.sub 1) := rfl
+theorem linesD_one_succ (d : Nat) (s : Statement N) (c : Choices N) :
+    linesToksD (d + 1) [s] c = s.toksD d (c.sub 0) ++ s.eolToksE (c.sub 1) := rfl
+theorem linesD_cons (d : Nat) (s s' : Statement N) (ss : List (Statement N)) (c : Choices N) :
+    linesToksD d (s :: s' :: ss) c
+      = s.toks (c.sub 0) ++ (s.eolToks (c.sub 1) ++ linesToksD d (s' :: ss) (c.sub 2)) := by
+  cases d <;> rfl
+
+theorem fnLinesD_nil (d : Nat) (c : Choices N) : fnLinesToksD d ([] : List (Statement N)) c = [] := by
+  cases d <;> rfl
+theorem fnLinesD_one (d : Nat) (s : Statement N) (c : Choices N) :
+    fnLinesToksD d [s] c = if s.isIfElse then s.toksD d (c.sub 0) else linesToksD d [s] c := by
+  cases d <;> rfl
+theorem fnLinesD_cons (d : Nat) (s s' : Statement N) (ss : List (Statement N)) (c : Choices N) :
+    fnLinesToksD d (s :: s' :: ss) c
+      = s.toks (c.sub 0) ++ (s.eolToks (c.sub 1) ++ fnLinesToksD d (s' :: ss) (c.sub 2)) := by
+  cases d <;> rfl
+
+theorem simple_fitsD (src : Str) (d : Nat) (s : SimpleStmt N) (eol : Eol) (c : Choices N) (r : List (Tok N)) :
+    (Statement.simple s eol).FitsD src d c r = s.Fits src c r := by
+  cases d <;> rfl
+theorem ifS_none_fitsD (src : Str) (d : Nat) (cond : Expression N) (eol : Eol) (t : List (Statement N))
+    (c : Choices N) (r : List (Tok N)) :
+    (Statement.ifS cond eol t none).FitsD src d c r = linesFitD src d t (c.sub 3) := by
+  cases d <;> rfl
+theorem ifS_some_fitsD (src : Str) (d : Nat) (cond : Expression N) (eol : Eol) (t b : List (Statement N))
+    (c : Choices N) (r : List (Tok N)) :
+    (Statement.ifS cond eol t (some b)).FitsD src d c r
+      = (linesFit src t (c.sub 3) ∧ linesFitD src d b (c.sub 6)) := by
+  cases d <;> rfl
+theorem whileS_fitsD (src : Str) (d : Nat) (cond : Expression N) (eol : Eol) (b : List (Statement N))
+    (c : Choices N) (r : List (Tok N)) :
+    (Statement.whileS cond eol b).FitsD src d c r = linesFitD src d b (c.sub 3) := by
+  cases d <;> rfl
+theorem untilS_fitsD (src : Str) (d : Nat) (cond : Expression N) (eol : Eol) (b : List (Statement N))
+    (c : Choices N) (r : List (Tok N)) :
+    (Statement.untilS cond eol b).FitsD src d c r = linesFitD src d b (c.sub 3) := by
+  cases d <;> rfl
+theorem func_fitsD (src : Str) (d : Nat) (f p : VarSpec) (ps : List VarSpec) (eol : Eol)
+    (b : List (Statement N)) (c : Choices N) (r : List (Tok N)) :
+    (Statement.func f p ps eol b).FitsD src d c r = fnLinesFitD src d b (c.sub 5) := by
+  cases d <;> rfl
+
+theorem linesFitD_one_zero (src : Str) (s : Statement N) (c : Choices N) :
+    linesFitD src 0 [s] c = (s.Fits src (c.sub 0) (s.eolToks (c.sub 1)) ∧ s.EolOK (c.sub 1)) := rfl
+theorem linesFitD_one_succ (src : Str) (d : Nat) (s : Statement N) (c : Choices N) :
+    linesFitD src (d + 1) [s] c = (s.FitsD src d (c.sub 0) (s.eolToksE (c.sub 1)) ∧ s.EolOKE (c.sub 1)) := rfl
+theorem linesFitD_cons (src : Str) (d : Nat) (s s' : Statement N) (ss : List (Statement N)) (c : Choices N) :
+    linesFitD src d (s :: s' :: ss) c = (s.Fits src (c.sub 0) (s.eolToks (c.sub 1)) ∧ s.EolOK (c.sub 1) ∧
+      linesFitD src d (s' :: ss) (c.sub 2)) := by
+  cases d <;> rfl
+theorem fnLinesFitD_one (src : Str) (d : Nat) (s : Statement N) (c : Choices N) :
+    fnLinesFitD src d [s] c = if s.isIfElse then s.FitsD src d (c.sub 0) [] else linesFitD src d [s] c := by
+  cases d <;> rfl
+theorem fnLinesFitD_cons (src : Str) (d : Nat) (s s' : Statement N) (ss : List (Statement N)) (c : Choices N) :
+    fnLinesFitD src d (s :: s' :: ss) c = (s.Fits src (c.sub 0) (s.eolToks (c.sub 1)) ∧ s.EolOK (c.sub 1) ∧
+      fnLinesFitD src d (s' :: ss) (c.sub 2)) := by
+  cases d <;> rfl
+
+omit [CharOps] in
+theorem eolToks_punct (e : Eol) (c : Choices N) : eolToks e c = eolPunct e c ++ [tk (.kw .newline) (c.sub 1)] := by
+  cases e <;> rfl
+
+omit [CharOps] in
+theorem eolToksE_simple (s : SimpleStmt N) (e : Eol) (c : Choices N) :
+    (Statement.simple s e).eolToksE c = eolPunct e c := by
+  cases e <;> rfl
+
+omit [CharOps] in
+theorem emptyTailD_two (d : Nat) (a b : Tok N) : emptyTailD (d + 2) a b = [] := rfl
+
+/-! ### the end of the tokens as a line end -/
+
+omit [CharOps] in
+theorem expectEol_punct (e : Eol) (c : Choices N) (src last eof b) :
+    expectEol ⟨src, eolPunct e c, last, eof, b⟩
+      = .ok ((), ⟨src, [], lastSnap (eolPunct e c) last, eof, b⟩) := by
+  cases e <;>
+    simp [eolPunct, expectEol, bind_run, mac_cons, mac_nil, isAnyKind, expectTokenOrEnd, current_run, pure_run]
+
+omit [CharOps] in
+theorem expectEol_eofE (s : Statement N) (c : Choices N) (src last eof b) :
+    expectEol ⟨src, s.eolToksE c, last, eof, b⟩
+      = .ok ((), ⟨src, [], lastSnap (s.eolToksE c) last, eof, b⟩) := by
+  cases s with
+  | simple s e => rw [eolToksE_simple]; exact expectEol_punct e c src last eof b
+  | ifS cond eol t e => rfl
+  | whileS cond eol b' => rfl
+  | untilS cond eol b' => rfl
+  | func f p ps eol b' => rfl
+
+theorem simple_stop_nil (s : SimpleStmt N) : s.Stop [] := by
+  cases s with
+  | say e => exact stop_of_endsExpr false e rfl
+  | put e t => exact ⟨rfl, fun _ => rfl⟩
+  | letBe t op l => exact ⟨rfl, fun _ => rfl, rfl⟩
+  | build x m => rfl
+  | knock x m => rfl
+  | listen t =>
+    cases t with
+    | none => rfl
+    | some t => exact ⟨rfl, fun _ => rfl⟩
+  | turn d e => exact ⟨stop_of_endsExpr false e rfl, rfl⟩
+  | rock p vals =>
+    cases vals with
+    | none => exact ⟨⟨rfl, fun _ => rfl⟩, rfl⟩
+    | some l => exact ⟨rfl, fun _ => rfl, rfl⟩
+  | roll p into =>
+    cases into with
+    | none => exact ⟨⟨rfl, fun _ => rfl⟩, rfl⟩
+    | some t => exact ⟨rfl, fun _ => rfl⟩
+  | ret kw e => exact ⟨stop_of_endsExpr false e rfl, rfl⟩
+  | break_ it =>
+    cases it with
+    | none => intro t ht; simp at ht
+    | some it => trivial
+  | continue_ itThe => trivial
+  | mutation op p into param =>
+    cases param with
+    | some e => exact stop_of_endsExpr false e rfl
+    | none =>
+      cases into with
+      | some t => exact ⟨⟨rfl, fun _ => rfl⟩, rfl⟩
+      | none => exact ⟨⟨rfl, fun _ => rfl⟩, rfl⟩
+  | call f a as => exact ⟨rfl, rfl⟩
+  | poeticLit t lit => intro t ht; simp at ht
+  | poeticExpr t e => exact stop_of_endsExpr false e rfl
+  | poeticStr t text junk => exact Or.inl rfl
+  | rockLike p lit => intro t ht; simp at ht
+
+/-- the last line may be followed by its punctuation and the end of the tokens -/
+theorem stmt_stop_eolE (s : Statement N) (c : Choices N) (hw : s.wf = true) (hpk : s.EolOKE c) :
+    s.Stop (s.eolToksE c) := by
+  cases s with
+  | simple s e =>
+    have hpk' : s.PeekStop (eolPunct e c) := hpk
+    rw [eolToksE_simple]
+    show s.Stop (eolPunct e c)
+    cases e with
+    | none => exact simple_stop_nil s
+    | dot => exact simple_stop_eolkw s .dot (c.sub 0) [] (eol_kind_ok s .dot .dot hw (Or.inl ⟨rfl, rfl⟩)) hpk'
+    | comma =>
+      exact simple_stop_eolkw s .comma (c.sub 0) [] (eol_kind_ok s .comma .comma hw (Or.inr (Or.inr ⟨rfl, rfl⟩)))
+        hpk'
+  | ifS cond eol t e => exact Or.inl rfl
+  | whileS cond eol b => exact Or.inl rfl
+  | untilS cond eol b => exact Or.inl rfl
+  | func f p ps eol b => exact Or.inl rfl
+
+/-! ### blocks at the end of the tokens -/
+
+/-- `parse_block` / `parse_function_block`, with the statement loop as a parameter -/
+def blockWith (loop : P N (List (Stmt N))) : P N (Block N) := do
+  let loc ← currentLoc
+  let nl ← matchAndConsume (isKind .newline)
+  match nl with
+  | some _ => pure (.mk loc [])
+  | none => do
+    let statements ← loop
+    pure (.mk loc statements)
+
+theorem parseBlock_eq (rec : Rec N) : parseBlock rec = blockWith (stmtLoopBody rec) := rfl
+theorem parseFunctionBlock_eq (rec : Rec N) : parseFunctionBlock rec = blockWith (fnStmtLoopBody rec) := rfl
+
+theorem stmtLoop_nil (rec : Rec N) (src last eof b) :
+    stmtLoopBody rec ⟨src, [], last, eof, b⟩ = .ok ([], ⟨src, [], last, eof, b⟩) := rfl
+theorem fnStmtLoop_nil (rec : Rec N) (src last eof b) :
+    fnStmtLoopBody rec ⟨src, [], last, eof, b⟩ = .ok ([], ⟨src, [], last, eof, b⟩) := rfl
+
+omit [CharOps] in
+theorem blockWith_nil (loop : P N (List (Stmt N))) (src : Str) (last eof : Snap)
+    (hnil : loop ⟨src, [], last, eof, false⟩ = .ok ([], ⟨src, [], last, eof, false⟩)) (hl : SnapOK src last) :
+    blockWith loop ⟨src, [], last, eof, false⟩
+      = .ok (.mk ⟨last.line, last.idx - last.lineStart⟩ [], ⟨src, [], last, eof, false⟩) := by
+  simp [blockWith, bind_run, currentLoc_ok _ _ _ _ _ hl, mac_nil, hnil, pure_run]
+
+omit [CharOps] in
+theorem blockWith_nl (loop : P N (List (Stmt N))) (c : Choices N) (ts : List (Tok N)) (src : Str)
+    (last eof : Snap) (hl : SnapOK src last) :
+    blockWith loop ⟨src, tk (.kw .newline) c :: ts, last, eof, false⟩
+      = .ok (.mk ⟨last.line, last.idx - last.lineStart⟩ [], ⟨src, ts, c.here.after, eof, false⟩) := by
+  simp [blockWith, bind_run, currentLoc_ok _ _ _ _ _ hl, mac_cons, isKind, pure_run]
+
+omit [CharOps] in
+theorem blockWith_lines (loop : P N (List (Stmt N))) (lines : List (Tok N)) (src : Str) (last eof : Snap)
+    (hl : SnapOK src last) (hnl : nextIn [.newline] lines = false) (ss' : List (Stmt N)) (st' : PState N)
+    (h : loop ⟨src, lines, last, eof, false⟩ = .ok (ss', st')) :
+    blockWith loop ⟨src, lines, last, eof, false⟩
+      = .ok (.mk ⟨last.line, last.idx - last.lineStart⟩ ss', st') := by
+  simp [blockWith, bind_run, currentLoc_ok _ _ _ _ _ hl, mac_stop_kind hnl, h, pure_run]
+
+/-- the result of the statement loop on the last lines -/
+def LoopRuns (loop : P N (List (Stmt N))) (lines : List (Tok N)) (b : List (Statement N)) (src : Str)
+    (eof : Snap) : Prop :=
+  ∀ last, ∃ ss' last', loop ⟨src, lines, last, eof, false⟩ = .ok (ss', ⟨src, [], last', eof, false⟩) ∧
+    eraseSL ss' = stmtsToStmt b
+
+/-- the line end of a header line and the last block of the input -/
+theorem headerTail_run (loop : P N (List (Stmt N))) (d : Nat) (eol : Eol) (b : List (Statement N))
+    (c2 c3 : Choices N) (lines : List (Tok N)) (src : Str) (last eof : Snap)
+    (hnil : ∀ last, loop ⟨src, [], last, eof, false⟩ = .ok ([], ⟨src, [], last, eof, false⟩))
+    (hl : SnapOK src last) (hs2 : c2.Sane src)
+    (hhead : b ≠ [] → nextIn [.newline] lines = false) (hlines : b ≠ [] → LoopRuns loop lines b src eof) :
+    ∃ T1 last1 B last2,
+      expectEol ⟨src, headerTailD d eol b c2 c3 lines, last, eof, false⟩
+        = .ok ((), ⟨src, T1, last1, eof, false⟩) ∧
+      blockWith loop ⟨src, T1, last1, eof, false⟩ = .ok (B, ⟨src, [], last2, eof, false⟩) ∧
+      eraseB B = .mk default (stmtsToStmt b) := by
+  cases b with
+  | nil =>
+    have hs21 : SnapOK src (c2.sub 1).here.after := sane_here hs2 [1]
+    cases d with
+    | zero =>
+      refine ⟨[tk (.kw .newline) (c3.sub 0)], (c2.sub 1).here.after, _, _, ?_,
+        blockWith_nl loop (c3.sub 0) [] src _ eof hs21, rfl⟩
+      have := expectEol_run eol c2 [tk (.kw .newline) (c3.sub 0)] src last eof false
+      rw [eol_last, eolToks_punct] at this
+      simpa [headerTailD, emptyTailD] using this
+    | succ d =>
+      cases d with
+      | zero =>
+        refine ⟨[], (c2.sub 1).here.after, _, _, ?_, blockWith_nil loop src _ eof (hnil _) hs21, rfl⟩
+        have := expectEol_run eol c2 [] src last eof false
+        rw [eol_last, eolToks_punct] at this
+        simpa [headerTailD, emptyTailD] using this
+      | succ d =>
+        have hl' : SnapOK src (lastSnap (eolPunct eol c2) last) :=
+          lastSnap_sane _ _ hl (eolPunct_sane eol c2 hs2)
+        refine ⟨[], lastSnap (eolPunct eol c2) last, _, _, ?_, blockWith_nil loop src _ eof (hnil _) hl', rfl⟩
+        simpa [headerTailD, emptyTailD_two] using expectEol_punct eol c2 src last eof false
+  | cons s ss =>
+    obtain ⟨ss', last', h1, h2⟩ := hlines (by simp) (c2.sub 1).here.after
+    refine ⟨lines, (c2.sub 1).here.after, _, last', ?_,
+      blockWith_lines loop lines src _ eof (sane_here hs2 [1]) (hhead (by simp)) ss' _ h1, by simp [eraseB, h2]⟩
+    have := expectEol_run eol c2 lines src last eof false
+    rw [eol_last] at this
+    simpa [headerTailD] using this
+
+/-- the `Newline` after `else` and the last block of the input -/
+theorem elseTail_run (loop : P N (List (Stmt N))) (d : Nat) (b : List (Statement N))
+    (c5 c6 : Choices N) (lines : List (Tok N)) (src : Str) (last eof : Snap)
+    (hnil : ∀ last, loop ⟨src, [], last, eof, false⟩ = .ok ([], ⟨src, [], last, eof, false⟩))
+    (hl : SnapOK src last) (hs5 : SnapOK src c5.here.after)
+    (hhead : b ≠ [] → nextIn [.newline] lines = false) (hlines : b ≠ [] → LoopRuns loop lines b src eof) :
+    ∃ o T1 last1 B last2,
+      expectTokenOrEnd .newline ⟨src, elseTailD d b c5 c6 lines, last, eof, false⟩
+        = .ok (o, ⟨src, T1, last1, eof, false⟩) ∧
+      blockWith loop ⟨src, T1, last1, eof, false⟩ = .ok (B, ⟨src, [], last2, eof, false⟩) ∧
+      eraseB B = .mk default (stmtsToStmt b) := by
+  cases b with
+  | nil =>
+    cases d with
+    | zero =>
+      refine ⟨some (tk (.kw .newline) c5), [tk (.kw .newline) (c6.sub 0)], c5.here.after, _, _, ?_,
+        blockWith_nl loop (c6.sub 0) [] src _ eof hs5, rfl⟩
+      simp [elseTailD, emptyTailD, expectTokenOrEnd, bind_run, current_run, advance_cons]
+    | succ d =>
+      cases d with
+      | zero =>
+        refine ⟨some (tk (.kw .newline) c5), [], c5.here.after, _, _, ?_,
+          blockWith_nil loop src _ eof (hnil _) hs5, rfl⟩
+        simp [elseTailD, emptyTailD, expectTokenOrEnd, bind_run, current_run, advance_cons]
+      | succ d =>
+        refine ⟨none, [], last, _, _, ?_, blockWith_nil loop src _ eof (hnil _) hl, rfl⟩
+        simp [elseTailD, emptyTailD_two, expectTokenOrEnd, bind_run, current_run, pure_run]
+  | cons s ss =>
+    obtain ⟨ss', last', h1, h2⟩ := hlines (by simp) c5.here.after
+    refine ⟨some (tk (.kw .newline) c5), lines, c5.here.after, _, last', ?_,
+      blockWith_lines loop lines src _ eof hs5 (hhead (by simp)) ss' _ h1, by simp [eraseB, h2]⟩
+    simp [elseTailD, expectTokenOrEnd, bind_run, current_run, advance_cons]
+
+omit [CharOps] in
+theorem headerTail_len (d : Nat) (eol : Eol) (b : List (Statement N)) (c2 c3 : Choices N)
+    (lines : List (Tok N)) (hne : b ≠ []) : lines.length ≤ (headerTailD d eol b c2 c3 lines).length := by
+  cases b with
+  | nil => exact absurd rfl hne
+  | cons s ss => simp [headerTailD]
+
+omit [CharOps] in
+theorem elseTail_len (d : Nat) (b : List (Statement N)) (c5 c6 : Choices N)
+    (lines : List (Tok N)) (hne : b ≠ []) : lines.length ≤ (elseTailD d b c5 c6 lines).length := by
+  cases b with
+  | nil => exact absurd rfl hne
+  | cons s ss => simp [elseTailD]
+
+/-- the condition of a header may be followed by the (possibly shortened) rest of the input -/
+theorem cond_stopD (cond : Expression N) (eol : Eol) (d : Nat) (b : List (Statement N)) (c2 c3 : Choices N)
+    (lines : List (Tok N)) (hok : (eol != .comma || cond.commaOK) = true) :
+    logicalSyn.Stop false cond (headerTailD d eol b c2 c3 lines) := by
+  cases b with
+  | cons s ss => exact cond_stop cond eol c2 lines hok
+  | nil =>
+    cases eol with
+    | dot => exact expr_stop_eolkw cond .dot (c2.sub 0) _ (Or.inl rfl)
+    | comma => exact expr_stop_eolkw cond .comma (c2.sub 0) _ (Or.inr (Or.inr ⟨rfl, by simpa using hok⟩))
+    | none =>
+      cases d with
+      | zero => exact expr_stop_eolkw cond .newline (c2.sub 1) _ (Or.inr (Or.inl rfl))
+      | succ d =>
+        cases d with
+        | zero => exact expr_stop_eolkw cond .newline (c2.sub 1) _ (Or.inr (Or.inl rfl))
+        | succ d => exact stop_of_endsExpr false cond rfl
+
+omit [CharOps] in
+/-- the parameters of a function header may be followed by the (possibly shortened) rest -/
+theorem params_stopD (eol : Eol) (d : Nat) (b : List (Statement N)) (c2 c3 : Choices N)
+    (lines : List (Tok N)) (hne : (eol != Eol.comma) = true) :
+    nextIn (.word :: argSeps) (headerTailD d eol b c2 c3 lines) = false := by
+  cases eol with
+  | comma => simp at hne
+  | dot => cases b <;> simp [headerTailD, eolPunct, eolToks, nextIn_cons, argSeps]
+  | none =>
+    cases b with
+    | cons s ss => simp [headerTailD, eolToks, nextIn_cons, argSeps]
+    | nil =>
+      cases d with
+      | zero => simp [headerTailD, eolPunct, emptyTailD, nextIn_cons, argSeps]
+      | succ d => cases d <;> simp [headerTailD, eolPunct, emptyTailD, nextIn_cons, argSeps]
+
+/-! ### heads -/
+
+theorem stmtD_head (d : Nat) (s : Statement N) (c : Choices N) :
+    ∃ t ts, s.toksD d c = t :: ts ∧ stmtStarts.contains t.kind = true := by
+  cases s with
+  | simple s eol => simpa [simple_toksD] using simple_head s c
+  | ifS cond eol t e =>
+    cases e with
+    | none => exact ⟨_, _, ifS_none_toksD .., rfl⟩
+    | some b => exact ⟨_, _, ifS_some_toksD .., rfl⟩
+  | whileS cond eol b => exact ⟨_, _, whileS_toksD .., rfl⟩
+  | untilS cond eol b => exact ⟨_, _, untilS_toksD .., rfl⟩
+  | func f p ps eol b =>
+    obtain ⟨t, ts, h1, h2⟩ := var_head_stmt f (c.sub 0)
+    exact ⟨t, _, by rw [func_toksD, h1, List.cons_append], h2⟩
+
+theorem linesD_head (d : Nat) (s : Statement N) (ss : List (Statement N)) (c : Choices N) :
+    ∃ t ts, linesToksD d (s :: ss) c = t :: ts ∧ stmtStarts.contains t.kind = true := by
+  cases ss with
+  | nil =>
+    cases d with
+    | zero =>
+      obtain ⟨t, ts, h1, h2⟩ := stmt_head s (c.sub 0)
+      exact ⟨t, _, by rw [linesD_one_zero, h1, List.cons_append], h2⟩
+    | succ d =>
+      obtain ⟨t, ts, h1, h2⟩ := stmtD_head d s (c.sub 0)
+      exact ⟨t, _, by rw [linesD_one_succ, h1, List.cons_append], h2⟩
+  | cons s' ss' =>
+    obtain ⟨t, ts, h1, h2⟩ := stmt_head s (c.sub 0)
+    exact ⟨t, _, by rw [linesD_cons, h1, List.cons_append], h2⟩
+
+theorem fnLinesD_head (d : Nat) (s : Statement N) (ss : List (Statement N)) (c : Choices N) :
+    ∃ t ts, fnLinesToksD d (s :: ss) c = t :: ts ∧ stmtStarts.contains t.kind = true := by
+  cases ss with
+  | nil =>
+    rw [fnLinesD_one]
+    split
+    · exact stmtD_head d s (c.sub 0)
+    · exact linesD_head d s [] c
+  | cons s' ss' =>
+    obtain ⟨t, ts, h1, h2⟩ := stmt_head s (c.sub 0)
+    exact ⟨t, _, by rw [fnLinesD_cons, h1, List.cons_append], h2⟩
+
+theorem linesD_not_nl (d : Nat) (b : List (Statement N)) (c : Choices N) (hne : b ≠ []) :
+    nextIn [.newline] (linesToksD d b c) = false ∧ nextIn [.else_] (linesToksD d b c) = false := by
+  cases b with
+  | nil => exact absurd rfl hne
+  | cons s ss =>
+    obtain ⟨t, ts, h1, h2⟩ := linesD_head d s ss c
+    rw [h1]
+    exact ⟨by simpa [nextIn_cons] using (starts_not h2).1, by simpa [nextIn_cons] using (starts_not h2).2⟩
+
+theorem fnLinesD_not_nl (d : Nat) (b : List (Statement N)) (c : Choices N) (hne : b ≠ []) :
+    nextIn [.newline] (fnLinesToksD d b c) = false := by
+  cases b with
+  | nil => exact absurd rfl hne
+  | cons s ss =>
+    obtain ⟨t, ts, h1, h2⟩ := fnLinesD_head d s ss c
+    rw [h1]
+    simpa [nextIn_cons] using (starts_not h2).1
+
+/-! ### the mutual induction at the end of the tokens -/
+
+/-- the statement `s`, the last thing in the input, is parsed from its tokens -/
+def StRunsD (d : Nat) (s : Statement N) (c : Choices N) (n : Nat) (src : Str) (last eof : Snap) : Prop :=
+  ∃ s' last', parseStatement (parser n) ⟨src, s.toksD d c, last, eof, false⟩
+      = .ok (some s', ⟨src, [], last', eof, false⟩) ∧ eraseS s' = s.toStmt
+
+mutual
+theorem stmtD_run : (s : Statement N) → ∀ (d : Nat) (c : Choices N) (n : Nat) (src last eof),
+    s.wf = true → (s.toksD d c).length ≤ n → c.Sane src → s.FitsD src d c [] → StRunsD d s c n src last eof
+  | .simple s eol, d, c, n, src, last, eof, hw, hn, hsane, hfit => by
+    rw [simple_wf, Bool.and_eq_true] at hw
+    rw [simple_fitsD] at hfit
+    rw [simple_toksD] at hn
+    obtain ⟨s', last', h1, _, h2⟩ := simple_run s c n [] src last eof hw.1 hn (simple_stop_nil s) hsane hfit
+    exact ⟨s', last', by simpa [simple_toksD] using h1, h2⟩
+  | .ifS cond eol t none, d, c, n, src, last, eof, hw, hn, hsane, hfit => by
+    rw [ifS_wf] at hw
+    simp only [Bool.and_eq_true] at hw
+    obtain ⟨⟨⟨hwc, hok⟩, hwt⟩, _⟩ := hw
+    rw [ifS_none_fitsD] at hfit
+    unfold StRunsD
+    rw [ifS_none_toksD] at hn ⊢
+    simp only [List.length_cons, List.length_append] at hn
+    cases n with
+    | zero => omega
+    | succ n =>
+      have hcs := cond_stopD cond eol d t (c.sub 2) (c.sub 3) (linesToksD d t (c.sub 3)) hok
+      have he := fun last => expression_run cond (c.sub 1) (n + 1) _ src last eof false hwc (by omega) hcs
+      obtain ⟨T1, last1, B, last2, heol, hB, hBs⟩ := headerTail_run (stmtLoopBody (parser n)) d eol t
+        (c.sub 2) (c.sub 3) (linesToksD d t (c.sub 3)) src
+        (lastSnap (unparse cond (c.sub 1)) (c.sub 0).here.after) eof
+        (fun _ => rfl) (expr_last_sane cond _ _ (sane_sub hsane 1) (sane_here hsane [0]))
+        (sane_sub hsane 2) (fun hne => (linesD_not_nl d t (c.sub 3) hne).1)
+        (fun hne last => linesD_run t d (c.sub 3) n src last eof hwt
+          (by have := headerTail_len d eol t (c.sub 2) (c.sub 3) (linesToksD d t (c.sub 3)) hne; omega)
+          (sane_sub hsane 3) hfit)
+      refine ⟨.ifS (logicalLay.ast cond (c.sub 1)) B none, last2, ?_, ?_⟩
+      · simp [parseStatement, current_run, map_run, parseIfStatement, bind_run, consume_cons, isKind, he,
+          heol, hrec_block, parseBlock_eq, hB, mac_nil, pure_run]
+      · simp only [eraseS, hBs, expr_shape]
+        rfl
+  | .ifS cond eol t (some b), d, c, n, src, last, eof, hw, hn, hsane, hfit => by
+    rw [ifS_wf] at hw
+    simp only [Bool.and_eq_true] at hw
+    obtain ⟨⟨⟨hwc, hok⟩, hwt⟩, hwe⟩ := hw
+    rw [ifS_some_fitsD] at hfit
+    obtain ⟨hfT, hfE⟩ := hfit
+    unfold StRunsD
+    rw [ifS_some_toksD] at hn ⊢
+    simp only [List.length_cons, List.length_append] at hn
+    have hlt := lines_len_le_block t (c.sub 3)
+    cases n with
+    | zero => omega
+    | succ n =>
+      have hcs := cond_stop cond eol (c.sub 2) (blockToks t (c.sub 3) ++ (tk (.kw .else_) (c.sub 4) ::
+        elseTailD d b (c.sub 5) (c.sub 6) (linesToksD d b (c.sub 6)))) hok
+      have he := fun last => expression_run cond (c.sub 1) (n + 1) _ src last eof false hwc (by omega) hcs
+      have heol := fun last => expectEol_run eol (c.sub 2) (blockToks t (c.sub 3) ++
+        (tk (.kw .else_) (c.sub 4) :: elseTailD d b (c.sub 5) (c.sub 6) (linesToksD d b (c.sub 6)))) src last
+        eof false
+      have hlinesT : LinesRun t (c.sub 3) n (tk (.kw .else_) (c.sub 4) ::
+          elseTailD d b (c.sub 5) (c.sub 6) (linesToksD d b (c.sub 6))) src eof := fun last =>
+        lines_run t (c.sub 3) n _ src last eof hwt (by omega) (Or.inr rfl) (sane_sub hsane 3) hfT
+      obtain ⟨TB, hTB, hTs⟩ := block_run t (c.sub 3) n _ src ((c.sub 2).sub 1).here.after eof
+        (sane_here hsane [2, 1]) hlinesT
+      obtain ⟨o, T1, last1, EB, last2, hnl, hEB, hEs⟩ := elseTail_run (stmtLoopBody (parser n)) d b
+        (c.sub 5) (c.sub 6) (linesToksD d b (c.sub 6)) src (c.sub 4).here.after eof
+        (fun _ => rfl) (sane_here hsane [4]) (sane_here hsane [5])
+        (fun hne => (linesD_not_nl d b (c.sub 6) hne).1)
+        (fun hne last => linesD_run b d (c.sub 6) n src last eof hwe
+          (by have := elseTail_len d b (c.sub 5) (c.sub 6) (linesToksD d b (c.sub 6)) hne; omega)
+          (sane_sub hsane 6) hfE)
+      rw [parseBlock_eq] at hTB
+      refine ⟨.ifS (logicalLay.ast cond (c.sub 1)) TB (some EB), last2, ?_, ?_⟩
+      · simp [parseStatement, current_run, map_run, parseIfStatement, bind_run, consume_cons, isKind, he,
+          heol, eol_last, hrec_block, hTB, mac_cons, hnl, parseBlock_eq, hEB, pure_run]
+      · simp only [eraseS, hTs, hEs, expr_shape]
+        rfl
+  | .whileS cond eol b, d, c, n, src, last, eof, hw, hn, hsane, hfit => by
+    rw [whileS_wf] at hw
+    simp only [Bool.and_eq_true] at hw
+    obtain ⟨⟨hwc, hok⟩, hwb⟩ := hw
+    rw [whileS_fitsD] at hfit
+    unfold StRunsD
+    rw [whileS_toksD] at hn ⊢
+    simp only [List.length_cons, List.length_append] at hn
+    cases n with
+    | zero => omega
+    | succ n =>
+      have hcs := cond_stopD cond eol d b (c.sub 2) (c.sub 3) (linesToksD d b (c.sub 3)) hok
+      have he := fun last => expression_run cond (c.sub 1) (n + 1) _ src last eof false hwc (by omega) hcs
+      obtain ⟨T1, last1, B, last2, heol, hB, hBs⟩ := headerTail_run (stmtLoopBody (parser n)) d eol b
+        (c.sub 2) (c.sub 3) (linesToksD d b (c.sub 3)) src
+        (lastSnap (unparse cond (c.sub 1)) (c.sub 0).here.after) eof
+        (fun _ => rfl) (expr_last_sane cond _ _ (sane_sub hsane 1) (sane_here hsane [0]))
+        (sane_sub hsane 2) (fun hne => (linesD_not_nl d b (c.sub 3) hne).1)
+        (fun hne last => linesD_run b d (c.sub 3) n src last eof hwb
+          (by have := headerTail_len d eol b (c.sub 2) (c.sub 3) (linesToksD d b (c.sub 3)) hne; omega)
+          (sane_sub hsane 3) hfit)
+      refine ⟨.whileS (logicalLay.ast cond (c.sub 1)) B, last2, ?_, ?_⟩
+      · have hd := loop_dispatch true (c.sub 0) (unparse cond (c.sub 1) ++
+          headerTailD d eol b (c.sub 2) (c.sub 3) (linesToksD d b (c.sub 3))) (parser (n + 1)) src last eof false
+        simp only [if_true, if_false, Bool.false_eq_true] at hd
+        rw [hd]
+        simp [map_run, parseLoop, bind_run, consume_cons, isAnyKind, he, heol, hrec_block, parseBlock_eq, hB,
+          pure_run]
+      · simp only [eraseS, hBs, expr_shape]
+        rfl
+  | .untilS cond eol b, d, c, n, src, last, eof, hw, hn, hsane, hfit => by
+    rw [untilS_wf] at hw
+    simp only [Bool.and_eq_true] at hw
+    obtain ⟨⟨hwc, hok⟩, hwb⟩ := hw
+    rw [untilS_fitsD] at hfit
+    unfold StRunsD
+    rw [untilS_toksD] at hn ⊢
+    simp only [List.length_cons, List.length_append] at hn
+    cases n with
+    | zero => omega
+    | succ n =>
+      have hcs := cond_stopD cond eol d b (c.sub 2) (c.sub 3) (linesToksD d b (c.sub 3)) hok
+      have he := fun last => expression_run cond (c.sub 1) (n + 1) _ src last eof false hwc (by omega) hcs
+      obtain ⟨T1, last1, B, last2, heol, hB, hBs⟩ := headerTail_run (stmtLoopBody (parser n)) d eol b
+        (c.sub 2) (c.sub 3) (linesToksD d b (c.sub 3)) src
+        (lastSnap (unparse cond (c.sub 1)) (c.sub 0).here.after) eof
+        (fun _ => rfl) (expr_last_sane cond _ _ (sane_sub hsane 1) (sane_here hsane [0]))
+        (sane_sub hsane 2) (fun hne => (linesD_not_nl d b (c.sub 3) hne).1)
+        (fun hne last => linesD_run b d (c.sub 3) n src last eof hwb
+          (by have := headerTail_len d eol b (c.sub 2) (c.sub 3) (linesToksD d b (c.sub 3)) hne; omega)
+          (sane_sub hsane 3) hfit)
+      refine ⟨.untilS (logicalLay.ast cond (c.sub 1)) B, last2, ?_, ?_⟩
+      · have hd := loop_dispatch false (c.sub 0) (unparse cond (c.sub 1) ++
+          headerTailD d eol b (c.sub 2) (c.sub 3) (linesToksD d b (c.sub 3))) (parser (n + 1)) src last eof false
+        simp only [if_true, if_false, Bool.false_eq_true] at hd
+        rw [hd]
+        simp [map_run, parseLoop, bind_run, consume_cons, isAnyKind, he, heol, hrec_block, parseBlock_eq, hB,
+          pure_run]
+      · simp only [eraseS, hBs, expr_shape]
+        rfl
+  | .func f p ps eol b, d, c, n, src, last, eof, hw, hn, hsane, hfit => by
+    rw [func_wf] at hw
+    simp only [Bool.and_eq_true] at hw
+    obtain ⟨⟨⟨⟨⟨hwf, hwp⟩, hwps⟩, heolc⟩, hwb⟩, hbody⟩ := hw
+    rw [func_fitsD] at hfit
+    unfold StRunsD
+    rw [func_toksD] at hn ⊢
+    simp only [List.length_cons, List.length_append] at hn
+    have hfp := var_toks_pos f (c.sub 0)
+    cases n with
+    | zero => omega
+    | succ n =>
+      have heh := params_stopD eol d b (c.sub 4) (c.sub 5) (fnLinesToksD d b (c.sub 5)) heolc
+      have hpnext : nextIn [.word] (paramsToks ps (c.sub 3) ++
+          headerTailD d eol b (c.sub 4) (c.sub 5) (fnLinesToksD d b (c.sub 5))) = false := by
+        cases ps with
+        | nil => simpa [paramsToks] using nextIn_sub heh (ks' := [.word]) (by decide)
+        | cons v' vs' =>
+          simp only [paramsToks, List.append_assoc]
+          exact nextIn_of_head (sep_head _) (by decide)
+      have hx := ident_run (.var f) c (n + 1)
+        (tk (.kw .takes) (c.sub 1) :: (p.toks (c.sub 2) ++ (paramsToks ps (c.sub 3) ++
+          headerTailD d eol b (c.sub 4) (c.sub 5) (fnLinesToksD d b (c.sub 5))))) src last eof
+        false hwf (by simpa [IdSpec.toks] using (by omega : (f.toks (c.sub 0)).length ≤ n + 1))
+        (by simp [nextIn_cons])
+      have hp := fun last => expectVar_run p (c.sub 2) (n + 1) (paramsToks ps (c.sub 3) ++
+        headerTailD d eol b (c.sub 4) (c.sub 5) (fnLinesToksD d b (c.sub 5))) src last eof false hwp
+        (by omega) hpnext
+      have hps := fun last => params_run ps (c.sub 3) (n + 1)
+        (headerTailD d eol b (c.sub 4) (c.sub 5) (fnLinesToksD d b (c.sub 5))) src last eof false hwps
+        (by omega) heh
+      obtain ⟨T1, last1, B, last2, heol, hB, hBs⟩ := headerTail_run (fnStmtLoopBody (parser n)) d eol b
+        (c.sub 4) (c.sub 5) (fnLinesToksD d b (c.sub 5)) src
+        (lastSnap (paramsToks ps (c.sub 3)) (lastSnap (p.toks (c.sub 2)) (c.sub 1).here.after)) eof
+        (fun _ => rfl)
+        (lastSnap_sane _ _ (lastSnap_sane _ _ (sane_here hsane [1]) (var_sane p _ (sane_sub hsane 2)))
+          (params_sane ps _ (sane_sub hsane 3)))
+        (sane_sub hsane 4) (fun hne => fnLinesD_not_nl d b (c.sub 5) hne)
+        (fun hne last => fnlinesD_run b d (c.sub 5) n src last eof hwb hbody
+          (by have := headerTail_len d eol b (c.sub 4) (c.sub 5) (fnLinesToksD d b (c.sub 5)) hne; omega)
+          (sane_sub hsane 5) hfit)
+      refine ⟨.func f.toName (f.range (c.sub 0)) ((p.toName, p.range (c.sub 2)) :: paramsR ps (c.sub 3)) B,
+        last2, ?_, ?_⟩
+      · obtain ⟨t0, ts0, h1, h2⟩ := var_head_kind f (c.sub 0)
+        simp only [IdSpec.toks, IdSpec.toIdent, IdSpec.range] at hx
+        change expectIdentifier (parser (n + 1)) ⟨src, f.toks (c.sub 0) ++ _, last, eof, false⟩ = _ at hx
+        have hdisp : parseStatement (parser (n + 1)) ⟨src, f.toks (c.sub 0) ++ (tk (.kw .takes) (c.sub 1) ::
+            (p.toks (c.sub 2) ++ (paramsToks ps (c.sub 3) ++
+              headerTailD d eol b (c.sub 4) (c.sub 5) (fnLinesToksD d b (c.sub 5))))), last, eof, false⟩
+            = (some <$> parseStatementStartingWithWord (parser (n + 1))) ⟨src, f.toks (c.sub 0) ++
+              (tk (.kw .takes) (c.sub 1) :: (p.toks (c.sub 2) ++ (paramsToks ps (c.sub 3) ++
+                headerTailD d eol b (c.sub 4) (c.sub 5) (fnLinesToksD d b (c.sub 5))))), last, eof, false⟩ := by
+          rw [h1]
+          rcases h2 with h2 | h2 <;>
+            simp [parseStatement, current_run, bind_run, h2]
+        rw [hdisp]
+        simp [map_run, parseStatementStartingWithWord, bind_run, hx, current_run, asVariableName,
+          parseFunction, consume_cons, isKind, parseParameterList, hp, hps, heol, hrec_fnblock,
+          parseFunctionBlock_eq, hB, pure_run]
+      · simp only [eraseS, hBs, List.map_cons, paramsR_erase]
+        rfl
+theorem lastlineD_run : (s : Statement N) → ∀ (d : Nat) (c0 c1 : Choices N) (n : Nat) (src last eof),
+    s.wf = true → (s.toksD d c0).length ≤ n → c0.Sane src → s.FitsD src d c0 (s.eolToksE c1) → s.EolOKE c1 →
+    ∃ s' last', parseStatement (parser n) ⟨src, s.toksD d c0 ++ s.eolToksE c1, last, eof, false⟩
+        = .ok (some s', ⟨src, s.eolToksE c1, last', eof, false⟩) ∧
+      eraseS s' = s.toStmt
+  | .simple s eol, d, c0, c1, n, src, last, eof, hw, hn, hsane, hfit, hpk => by
+    have hst := stmt_stop_eolE (.simple s eol) c1 hw hpk
+    rw [simple_wf, Bool.and_eq_true] at hw
+    rw [simple_fitsD] at hfit
+    rw [simple_toksD] at hn ⊢
+    obtain ⟨s', last', h1, _, h2⟩ := simple_run s c0 n _ src last eof hw.1 hn hst hsane hfit
+    exact ⟨s', last', h1, h2⟩
+  | .ifS cond eol t e, d, c0, c1, n, src, last, eof, hw, hn, hsane, hfit, _ => by
+    have := stmtD_run (.ifS cond eol t e) d c0 n src last eof hw hn hsane
+      (by cases e <;> simpa [ifS_none_fitsD, ifS_some_fitsD] using hfit)
+    simpa [StRunsD, Statement.eolToksE] using this
+  | .whileS cond eol b, d, c0, c1, n, src, last, eof, hw, hn, hsane, hfit, _ => by
+    have := stmtD_run (.whileS cond eol b) d c0 n src last eof hw hn hsane
+      (by simpa [whileS_fitsD] using hfit)
+    simpa [StRunsD, Statement.eolToksE] using this
+  | .untilS cond eol b, d, c0, c1, n, src, last, eof, hw, hn, hsane, hfit, _ => by
+    have := stmtD_run (.untilS cond eol b) d c0 n src last eof hw hn hsane
+      (by simpa [untilS_fitsD] using hfit)
+    simpa [StRunsD, Statement.eolToksE] using this
+  | .func f p ps eol b, d, c0, c1, n, src, last, eof, hw, hn, hsane, hfit, _ => by
+    have := stmtD_run (.func f p ps eol b) d c0 n src last eof hw hn hsane
+      (by simpa [func_fitsD] using hfit)
+    simpa [StRunsD, Statement.eolToksE] using this
+theorem linesD_run : (ls : List (Statement N)) → ∀ (d : Nat) (c : Choices N) (n : Nat) (src last eof),
+    stmtsWf ls = true → (linesToksD d ls c).length ≤ n → c.Sane src → linesFitD src d ls c →
+    ∃ ss' last', stmtLoopBody (parser n) ⟨src, linesToksD d ls c, last, eof, false⟩
+        = .ok (ss', ⟨src, [], last', eof, false⟩) ∧
+      eraseSL ss' = stmtsToStmt ls
+  | [], d, c, n, src, last, eof, _, _, _, _ => ⟨[], last, by rw [linesD_nil]; rfl, rfl⟩
+  | [s], 0, c, n, src, last, eof, hw, hn, hsane, hfit => by
+    rw [stmtsWf_cons, Bool.and_eq_true] at hw
+    rw [linesFitD_one_zero] at hfit
+    rw [linesD_one_zero] at hn ⊢
+    simp only [List.length_append] at hn
+    obtain ⟨t0, ts0, hh, _⟩ := stmt_head s (c.sub 0)
+    have hpos : 1 ≤ (s.toks (c.sub 0)).length := by simp [hh]
+    cases n with
+    | zero => omega
+    | succ n =>
+      obtain ⟨s', last', hs1, hl1, hs2⟩ := stmt_run s (c.sub 0) (n + 1) (s.eolToks (c.sub 1)) src last eof
+        hw.1 (by omega) (by simpa using stmt_stop_eol s (c.sub 1) [] hw.1 hfit.2) (sane_sub hsane 0) hfit.1
+      have hl1' := hl1 (by simpa using stmt_eol_ne s (c.sub 1) [])
+      subst hl1'
+      have heol := expectEol_stmt s (c.sub 1) [] src (lastSnap (s.toks (c.sub 0)) last) eof false
+      rw [List.append_nil] at heol
+      refine ⟨[s'], lastSnap (s.eolToks (c.sub 1)) (lastSnap (s.toks (c.sub 0)) last), ?_,
+        by simp [eraseSL, hs2, stmtsToStmt_cons]; rfl⟩
+      rw [stmtLoopBody]
+      simp [bind_run, hs1, heol, hrec_stmtLoop, stmtLoop_nil, pure_run]
+  | [s], d + 1, c, n, src, last, eof, hw, hn, hsane, hfit => by
+    rw [stmtsWf_cons, Bool.and_eq_true] at hw
+    rw [linesFitD_one_succ] at hfit
+    rw [linesD_one_succ] at hn ⊢
+    simp only [List.length_append] at hn
+    obtain ⟨t0, ts0, hh, _⟩ := stmtD_head d s (c.sub 0)
+    have hpos : 1 ≤ (s.toksD d (c.sub 0)).length := by simp [hh]
+    cases n with
+    | zero => omega
+    | succ n =>
+      obtain ⟨s', last', hs1, hs2⟩ := lastlineD_run s d (c.sub 0) (c.sub 1) (n + 1) src last eof hw.1 (by omega)
+        (sane_sub hsane 0) hfit.1 hfit.2
+      refine ⟨[s'], lastSnap (s.eolToksE (c.sub 1)) last', ?_, by simp [eraseSL, hs2, stmtsToStmt_cons]; rfl⟩
+      rw [stmtLoopBody]
+      simp [bind_run, hs1, expectEol_eofE, hrec_stmtLoop, stmtLoop_nil, pure_run]
+  | s :: s2 :: ss, d, c, n, src, last, eof, hw, hn, hsane, hfit => by
+    rw [stmtsWf_cons, Bool.and_eq_true] at hw
+    rw [linesFitD_cons] at hfit
+    obtain ⟨hf1, hf2, hf3⟩ := hfit
+    rw [linesD_cons] at hn ⊢
+    simp only [List.length_append] at hn
+    obtain ⟨t0, ts0, hh, _⟩ := stmt_head s (c.sub 0)
+    have hpos : 1 ≤ (s.toks (c.sub 0)).length := by simp [hh]
+    cases n with
+    | zero => omega
+    | succ n =>
+      obtain ⟨s', last', hs1, hl1, hs2⟩ := stmt_run s (c.sub 0) (n + 1)
+        (s.eolToks (c.sub 1) ++ linesToksD d (s2 :: ss) (c.sub 2))
+        src last eof hw.1 (by omega) (stmt_stop_eol s (c.sub 1) _ hw.1 hf2) (sane_sub hsane 0)
+        (stmt_fits_congr src s _ (stmt_eol_head s _ _).symm hf1)
+      have hl1' := hl1 (stmt_eol_ne s _ _)
+      subst hl1'
+      obtain ⟨ss', last2, hss1, hss2⟩ := linesD_run (s2 :: ss) d (c.sub 2) n src
+        (lastSnap (s.eolToks (c.sub 1)) (lastSnap (s.toks (c.sub 0)) last)) eof hw.2 (by omega)
+        (sane_sub hsane 2) hf3
+      refine ⟨s' :: ss', last2, ?_, by simp [eraseSL, hs2, hss2, stmtsToStmt_cons]⟩
+      rw [stmtLoopBody]
+      simp [bind_run, hs1, expectEol_stmt, hrec_stmtLoop, hss1, pure_run]
+theorem fnlinesD_run : (ls : List (Statement N)) → ∀ (d : Nat) (c : Choices N) (n : Nat) (src last eof),
+    stmtsWf ls = true → fnBodyOK ls = true → (fnLinesToksD d ls c).length ≤ n → c.Sane src →
+    fnLinesFitD src d ls c →
+    ∃ ss' last', fnStmtLoopBody (parser n) ⟨src, fnLinesToksD d ls c, last, eof, false⟩
+        = .ok (ss', ⟨src, [], last', eof, false⟩) ∧
+      eraseSL ss' = stmtsToStmt ls
+  | [], d, c, n, src, last, eof, _, _, _, _, _ => ⟨[], last, by rw [fnLinesD_nil]; rfl, rfl⟩
+  | [s], d, c, n, src, last, eof, hw, _, hn, hsane, hfit => by
+    rw [stmtsWf_cons, Bool.and_eq_true] at hw
+    rw [fnLinesFitD_one] at hfit
+    rw [fnLinesD_one] at hn ⊢
+    by_cases hie : s.isIfElse = true
+    · simp only [hie, if_true] at hn hfit ⊢
+      obtain ⟨t0, ts0, hh, _⟩ := stmtD_head d s (c.sub 0)
+      cases n with
+      | zero => rw [hh] at hn; simp at hn
+      | succ n =>
+        obtain ⟨s', last', hs1, hs2⟩ := stmtD_run s d (c.sub 0) (n + 1) src last eof hw.1 hn (sane_sub hsane 0)
+          hfit
+        have hft : isFunctionTerminator s' = true := by
+          rw [← isFunctionTerminator_erase, hs2, isFunctionTerminator_toStmt]; exact hie
+        refine ⟨[s'], last', ?_, by simp [eraseSL, hs2, stmtsToStmt_cons]; rfl⟩
+        rw [fnStmtLoopBody]
+        simp [bind_run, hs1, hft, pure_run]
+    · have hnt : s.isIfElse = false := by simpa using hie
+      simp only [hnt, Bool.false_eq_true, if_false] at hn hfit ⊢
+      cases d with
+      | zero =>
+        rw [linesFitD_one_zero] at hfit
+        rw [linesD_one_zero] at hn ⊢
+        simp only [List.length_append] at hn
+        obtain ⟨t0, ts0, hh, _⟩ := stmt_head s (c.sub 0)
+        have hpos : 1 ≤ (s.toks (c.sub 0)).length := by simp [hh]
+        cases n with
+        | zero => omega
+        | succ n =>
+          obtain ⟨s', last', hs1, hl1, hs2⟩ := stmt_run s (c.sub 0) (n + 1) (s.eolToks (c.sub 1)) src last eof
+            hw.1 (by omega) (by simpa using stmt_stop_eol s (c.sub 1) [] hw.1 hfit.2) (sane_sub hsane 0) hfit.1
+          have hl1' := hl1 (by simpa using stmt_eol_ne s (c.sub 1) [])
+          subst hl1'
+          have heol := expectEol_stmt s (c.sub 1) [] src (lastSnap (s.toks (c.sub 0)) last) eof false
+          rw [List.append_nil] at heol
+          have hft : isFunctionTerminator s' = false := by
+            rw [← isFunctionTerminator_erase, hs2, isFunctionTerminator_toStmt]; exact hnt
+          refine ⟨[s'], lastSnap (s.eolToks (c.sub 1)) (lastSnap (s.toks (c.sub 0)) last), ?_,
+            by simp [eraseSL, hs2, stmtsToStmt_cons]; rfl⟩
+          rw [fnStmtLoopBody]
+          simp [bind_run, hs1, hft, heol, hrec_fnStmtLoop, fnStmtLoop_nil, pure_run]
+      | succ d =>
+        rw [linesFitD_one_succ] at hfit
+        rw [linesD_one_succ] at hn ⊢
+        simp only [List.length_append] at hn
+        obtain ⟨t0, ts0, hh, _⟩ := stmtD_head d s (c.sub 0)
+        have hpos : 1 ≤ (s.toksD d (c.sub 0)).length := by simp [hh]
+        cases n with
+        | zero => omega
+        | succ n =>
+          obtain ⟨s', last', hs1, hs2⟩ := lastlineD_run s d (c.sub 0) (c.sub 1) (n + 1) src last eof hw.1
+            (by omega) (sane_sub hsane 0) hfit.1 hfit.2
+          have hft : isFunctionTerminator s' = false := by
+            rw [← isFunctionTerminator_erase, hs2, isFunctionTerminator_toStmt]; exact hnt
+          refine ⟨[s'], lastSnap (s.eolToksE (c.sub 1)) last', ?_,
+            by simp [eraseSL, hs2, stmtsToStmt_cons]; rfl⟩
+          rw [fnStmtLoopBody]
+          simp [bind_run, hs1, hft, expectEol_eofE, hrec_fnStmtLoop, fnStmtLoop_nil, pure_run]
+  | s :: s2 :: ss, d, c, n, src, last, eof, hw, hok, hn, hsane, hfit => by
+    rw [stmtsWf_cons, Bool.and_eq_true] at hw
+    rw [fnLinesFitD_cons] at hfit
+    obtain ⟨hf1, hf2, hf3⟩ := hfit
+    rw [fnLinesD_cons] at hn ⊢
+    simp only [List.length_append] at hn
+    obtain ⟨t0, ts0, hh, _⟩ := stmt_head s (c.sub 0)
+    have hpos : 1 ≤ (s.toks (c.sub 0)).length := by simp [hh]
+    obtain ⟨hok1, hok2⟩ := fnBodyOK_tail hok
+    have hnt : s.isIfElse = false := hok2 (by simp)
+    cases n with
+    | zero => omega
+    | succ n =>
+      obtain ⟨s', last', hs1, hl1, hs2⟩ := stmt_run s (c.sub 0) (n + 1)
+        (s.eolToks (c.sub 1) ++ fnLinesToksD d (s2 :: ss) (c.sub 2))
+        src last eof hw.1 (by omega) (stmt_stop_eol s (c.sub 1) _ hw.1 hf2) (sane_sub hsane 0)
+        (stmt_fits_congr src s _ (stmt_eol_head s _ _).symm hf1)
+      have hl1' := hl1 (stmt_eol_ne s _ _)
+      subst hl1'
+      have hft : isFunctionTerminator s' = false := by
+        rw [← isFunctionTerminator_erase, hs2, isFunctionTerminator_toStmt]; exact hnt
+      obtain ⟨ss', last2, hss1, hss2⟩ := fnlinesD_run (s2 :: ss) d (c.sub 2) n src
+        (lastSnap (s.eolToks (c.sub 1)) (lastSnap (s.toks (c.sub 0)) last)) eof hw.2 hok1 (by omega)
+        (sane_sub hsane 2) hf3
+      refine ⟨s' :: ss', last2, ?_, by simp [eraseSL, hs2, hss2, stmtsToStmt_cons]⟩
+      rw [fnStmtLoopBody]
+      simp [bind_run, hs1, hft, expectEol_stmt, hrec_fnStmtLoop, hss1, pure_run]
+end
+
+/-! ### programs that end with the tokens -/
+
+theorem topLoop_nil (rec : Rec N) (src last eof b) :
+    topLoopBody rec ⟨src, [], last, eof, b⟩ = .ok ([], ⟨src, [], last, eof, b⟩) := rfl
+
+omit [CharOps] in
+theorem blanks_not_else (k : Nat) (c' : Choices N) (X : List (Tok N)) (hX : nextIn [.else_] X = false) :
+    nextIn [.else_] (blanksToks k c' ++ X) = false := by
+  cases k with
+  | zero => simpa [blanksToks] using hX
+  | succ k' => simp [blanksToks, nextIn_cons]
+
+theorem progD_not_else (d : Nat) (bs : List (List (Statement N))) (c : Choices N) (hw : progWf bs = true) :
+    nextIn [.else_] (progToksD d bs c) = false := by
+  cases bs with
+  | nil => rfl
+  | cons b bs =>
+    simp only [progWf, List.all_cons, Bool.and_eq_true, Bool.not_eq_true', List.isEmpty_eq_false_iff] at hw
+    cases bs with
+    | nil =>
+      rw [progToksD]
+      exact blanks_not_else _ _ _ (linesD_not_nl d b (c.sub 1) hw.1.1).2
+    | cons b' bs' =>
+      rw [progToksD]
+      exact blanks_not_else _ _ _ (lines_not_else b hw.1.1 (c.sub 1) _)
+
+theorem prog_runD (d : Nat) : ∀ (bs : List (List (Statement N))) (c : Choices N) (n : Nat) (src : Str)
+    (last eof : Snap),
+    progWf bs = true → (progToksD d bs c).length ≤ n → SnapOK src last → c.Sane src → progFitsD src d bs c →
+    TopRuns n src (progToksD d bs c) last eof (progToAst bs) := by
+  intro bs
+  induction bs with
+  | nil =>
+    intro c n src last eof _ _ _ _ _
+    exact ⟨[], _, rfl, rfl, rfl⟩
+  | cons b bs ih =>
+    intro c n src last eof hw hn hl hs hfit
+    simp only [progWf, List.all_cons, Bool.and_eq_true, Bool.not_eq_true', List.isEmpty_eq_false_iff] at hw
+    obtain ⟨⟨hne, hwb⟩, hwbs⟩ := hw
+    have hwbs' : progWf bs = true := by simpa [progWf] using hwbs
+    cases bs with
+    | nil =>
+      rw [progToksD] at hn ⊢
+      simp only [List.length_append, blanks_len] at hn
+      have hfit' : linesFitD src d b (c.sub 1) := hfit
+      obtain ⟨hnl, hXe⟩ := linesD_not_nl d b (c.sub 1) hne
+      refine blanks_run _ src eof _ ?_ hXe (c.sub 0).choice (c.sub 0) n last (by omega) hl (sane_sub hs 0)
+      intro m last' hm hl'
+      cases b with
+      | nil => exact absurd rfl hne
+      | cons s ss =>
+        obtain ⟨t, ts, hh, hk⟩ := linesD_head d s ss (c.sub 1)
+        cases m with
+        | zero => rw [hh] at hm; simp at hm
+        | succ m =>
+          obtain ⟨ss', last2, hl1, hl2⟩ := linesD_run (s :: ss) d (c.sub 1) (m + 1) src last' eof hwb hm
+            (sane_sub hs 1) hfit'
+          have hss' : ss' ≠ [] := by
+            intro h; subst h
+            simp [eraseSL, stmtsToStmt_cons] at hl2
+          refine ⟨[.mk ⟨last'.line, last'.idx - last'.lineStart⟩ ss'], ⟨src, [], last2, eof, false⟩, ?_, rfl, ?_⟩
+          · rw [topLoopBody, bind_run, current_run]
+            simp only [hh, List.head?_cons]
+            rw [← hh]
+            simp [bind_run, parseBlock, currentLoc_ok _ _ _ _ _ hl', mac_stop_kind hnl, hl1, pure_run,
+              topLoopAfterBlock, currentMatches_nil, hrec_topLoop, topLoop_nil, Block.isEmpty, hss']
+          · simp [eraseB, hl2, progToAst]
+    | cons b' bs' =>
+      rw [progToksD] at hn ⊢
+      simp only [List.length_append, List.length_cons, blanks_len] at hn
+      have hfit' : linesFit src b (c.sub 1) ∧ progFitsD src d (b' :: bs') (c.sub 3) := hfit
+      exact prog_step b hne hwb (progToksD d (b' :: bs') (c.sub 3)) src eof (progToAst (b' :: bs'))
+        (fun m last' hm hl' => ih (c.sub 3) m src last' eof hwbs' hm hl' (sane_sub hs 3) hfit'.2)
+        (progD_not_else d (b' :: bs') (c.sub 3) hwbs') (c.sub 0) (c.sub 1) (c.sub 2) (c.sub 0).choice n last
+        (by omega) hl (sane_sub hs 0) (sane_sub hs 1) hfit'.1 (sane_here hs [2])
+
+theorem program_roundtripD (d : Nat) (bs : List (List (Statement N))) (c : Choices N) (st : PState N) (n : Nat)
+    (hwf : progWf bs = true) (htoks : st.toks = progToksD d bs c) (hflag : st.parsingList = false)
+    (hlast : SnapOK st.src st.last) (hsane : c.Sane st.src) (hfit : progFitsD st.src d bs c)
+    (hn : (progToksD d bs c).length ≤ n) :
+    ∃ p st', parseProgramBody (parser n) st = .ok (p, st') ∧ p.code.map eraseB = progToAst bs ∧
+      st'.toks = [] := by
+  obtain ⟨src, toks, last, eof, pl⟩ := st
+  simp only at htoks hflag hsane hlast hfit
+  subst htoks hflag
+  obtain ⟨bl, st', h1, h2, h3⟩ := prog_runD d bs c n src last eof hwf hn hlast hsane hfit
+  exact ⟨⟨bl⟩, st', by simp [parseProgramBody, bind_run, h1, pure_run], h3, h2⟩
+
+theorem statement_roundtripD (d : Nat) (s : Statement N) (c : Choices N) (st : PState N) (n : Nat)
+    (hwf : s.wf = true) (htoks : st.toks = s.toksD d c) (hflag : st.parsingList = false)
+    (hsane : c.Sane st.src) (hfit : s.FitsD st.src d c []) (hn : (s.toksD d c).length ≤ n) :
+    ∃ s' st', parseStatement (parser n) st = .ok (some s', st') ∧ eraseS s' = s.toStmt ∧ st'.toks = [] := by
+  obtain ⟨src, toks, last, eof, pl⟩ := st
+  simp only at htoks hflag hsane hfit
+  subst htoks hflag
+  obtain ⟨s', last', h1, h2⟩ := stmtD_run s d c n src last eof hwf hn hsane hfit
+  exact ⟨s', _, h1, h2, rfl⟩
+
+/-! ### all the last newlines omitted (`toksE`) is the instance at `eofDepth` -/
 
 theorem simple_toksE (s : SimpleStmt N) (eol : Eol) (c : Choices N) :
     (Statement.simple s eol).toksE c = s.toks c := rfl
@@ -56,567 +963,120 @@ theorem fnLinesE_cons (s s' : Statement N) (ss : List (Statement N)) (c : Choice
     fnLinesToksE (s :: s' :: ss) c
       = s.toks (c.sub 0) ++ (s.eolToks (c.sub 1) ++ fnLinesToksE (s' :: ss) (c.sub 2)) := rfl
 
-/-! ### the end of the tokens as a line end -/
+omit [CharOps] in
+theorem eofDepth_ifS_none (cond : Expression N) (eol : Eol) (t : List (Statement N)) :
+    (Statement.ifS cond eol t none).eofDepth = linesEofDepth t := rfl
+omit [CharOps] in
+theorem eofDepth_ifS_some (cond : Expression N) (eol : Eol) (t b : List (Statement N)) :
+    (Statement.ifS cond eol t (some b)).eofDepth = linesEofDepth b := rfl
+omit [CharOps] in
+theorem eofDepth_whileS (cond : Expression N) (eol : Eol) (b : List (Statement N)) :
+    (Statement.whileS cond eol b).eofDepth = linesEofDepth b := rfl
+omit [CharOps] in
+theorem eofDepth_untilS (cond : Expression N) (eol : Eol) (b : List (Statement N)) :
+    (Statement.untilS cond eol b).eofDepth = linesEofDepth b := rfl
+omit [CharOps] in
+theorem eofDepth_func (f p : VarSpec) (ps : List VarSpec) (eol : Eol) (b : List (Statement N)) :
+    (Statement.func (N := N) f p ps eol b).eofDepth = fnLinesEofDepth b := rfl
+omit [CharOps] in
+theorem linesEofDepth_nil : linesEofDepth ([] : List (Statement N)) = 1 := rfl
+omit [CharOps] in
+theorem linesEofDepth_one (s : Statement N) : linesEofDepth [s] = s.eofDepth + 1 := rfl
+omit [CharOps] in
+theorem linesEofDepth_cons (s s' : Statement N) (ss : List (Statement N)) :
+    linesEofDepth (s :: s' :: ss) = linesEofDepth (s' :: ss) := rfl
+omit [CharOps] in
+theorem fnLinesEofDepth_nil : fnLinesEofDepth ([] : List (Statement N)) = 1 := rfl
+omit [CharOps] in
+theorem fnLinesEofDepth_one (s : Statement N) :
+    fnLinesEofDepth [s] = if s.isIfElse then s.eofDepth else s.eofDepth + 1 := rfl
+omit [CharOps] in
+theorem fnLinesEofDepth_cons (s s' : Statement N) (ss : List (Statement N)) :
+    fnLinesEofDepth (s :: s' :: ss) = fnLinesEofDepth (s' :: ss) := rfl
 
 omit [CharOps] in
-theorem expectEol_eofE (s : Statement N) (c : Choices N) (src last eof b) :
-    expectEol ⟨src, s.eolToksE c, last, eof, b⟩
-      = .ok ((), ⟨src, [], lastSnap (s.eolToksE c) last, eof, b⟩) := by
-  cases s with
-  | simple s e =>
-    cases e <;>
-      simp [Statement.eolToksE, expectEol, bind_run, mac_cons, mac_nil, isAnyKind, expectTokenOrEnd,
-        current_run, pure_run]
-  | ifS cond eol t e => rfl
-  | whileS cond eol b' => rfl
-  | untilS cond eol b' => rfl
-  | func f p ps eol b' => rfl
-
-theorem simple_stop_nil (s : SimpleStmt N) : s.Stop [] := by
-  cases s with
-  | say e => exact stop_of_endsExpr false e rfl
-  | put e t => exact ⟨rfl, fun _ => rfl⟩
-  | letBe t op l => exact ⟨rfl, fun _ => rfl, rfl⟩
-  | build x m => rfl
-  | knock x m => rfl
-  | listen t =>
-    cases t with
-    | none => rfl
-    | some t => exact ⟨rfl, fun _ => rfl⟩
-  | turn d e => exact ⟨stop_of_endsExpr false e rfl, rfl⟩
-  | rock p vals =>
-    cases vals with
-    | none => exact ⟨⟨rfl, fun _ => rfl⟩, rfl⟩
-    | some l => exact ⟨rfl, fun _ => rfl, rfl⟩
-  | roll p into =>
-    cases into with
-    | none => exact ⟨⟨rfl, fun _ => rfl⟩, rfl⟩
-    | some t => exact ⟨rfl, fun _ => rfl⟩
-  | ret kw e => exact ⟨stop_of_endsExpr false e rfl, rfl⟩
-  | break_ it =>
-    cases it with
-    | none => intro t ht; simp at ht
-    | some it => trivial
-  | continue_ itThe => trivial
-  | mutation op p into param =>
-    cases param with
-    | some e => exact stop_of_endsExpr false e rfl
-    | none =>
-      cases into with
-      | some t => exact ⟨⟨rfl, fun _ => rfl⟩, rfl⟩
-      | none => exact ⟨⟨rfl, fun _ => rfl⟩, rfl⟩
-  | call f a as => exact ⟨rfl, rfl⟩
-
-theorem stmt_stop_eolE (s : Statement N) (c : Choices N) (hw : s.wf = true) (hit : c.NoIt) :
-    s.Stop (s.eolToksE c) := by
-  cases s with
-  | simple s e =>
-    rw [simple_wf, Bool.and_eq_true, Bool.or_eq_true] at hw
-    cases e with
-    | none => exact simple_stop_nil s
-    | dot => exact simple_stop_eolkw s .dot (c.sub 0) [] (Or.inl rfl) (hit [0])
-    | comma =>
-      refine simple_stop_eolkw s .comma (c.sub 0) [] (Or.inr (Or.inr ⟨rfl, ?_⟩)) (hit [0])
-      rcases hw.2 with h | h
-      · simp at h
-      · exact h
-  | ifS cond eol t e => exact Or.inl rfl
-  | whileS cond eol b => exact Or.inl rfl
-  | untilS cond eol b => exact Or.inl rfl
-  | func f p ps eol b => exact Or.inl rfl
-
-theorem stmtE_head (s : Statement N) (c : Choices N) :
-    ∃ t ts, s.toksE c = t :: ts ∧ stmtStarts.contains t.kind = true := by
-  cases s with
-  | simple s eol => simpa [simple_toksE] using simple_head s c
-  | ifS cond eol t e =>
-    cases e with
-    | none => exact ⟨_, _, ifS_none_toksE .., rfl⟩
-    | some b => exact ⟨_, _, ifS_some_toksE .., rfl⟩
-  | whileS cond eol b => exact ⟨_, _, whileS_toksE .., rfl⟩
-  | untilS cond eol b => exact ⟨_, _, untilS_toksE .., rfl⟩
-  | func f p ps eol b =>
-    obtain ⟨t, ts, h1, h2⟩ := var_head_stmt f (c.sub 0)
-    exact ⟨t, _, by rw [func_toksE, h1, List.cons_append], h2⟩
-
-omit [CharOps] in
-theorem starts_not {k : TK} (h2 : stmtStarts.contains k = true) :
-    [TK.newline].contains k = false ∧ [TK.else_].contains k = false := by
-  simp only [stmtStarts, List.contains_eq_mem, List.mem_cons, List.not_mem_nil, or_false,
-    decide_eq_true_eq] at h2
-  rcases h2 with h | h | h | h | h | h | h | h | h | h | h | h | h | h | h | h | h | h | h | h | h | h <;>
-    subst h <;> exact ⟨rfl, rfl⟩
-
-theorem linesE_head (s : Statement N) (ss : List (Statement N)) (c : Choices N) :
-    ∃ t ts, linesToksE (s :: ss) c = t :: ts ∧ stmtStarts.contains t.kind = true := by
-  cases ss with
-  | nil =>
-    obtain ⟨t, ts, h1, h2⟩ := stmtE_head s (c.sub 0)
-    exact ⟨t, _, by rw [linesE_one, h1, List.cons_append], h2⟩
-  | cons s' ss' =>
-    obtain ⟨t, ts, h1, h2⟩ := stmt_head s (c.sub 0)
-    exact ⟨t, _, by rw [linesE_cons, h1, List.cons_append], h2⟩
-
-theorem fnLinesE_head (s : Statement N) (ss : List (Statement N)) (c : Choices N) :
-    ∃ t ts, fnLinesToksE (s :: ss) c = t :: ts ∧ stmtStarts.contains t.kind = true := by
-  cases ss with
-  | nil =>
-    obtain ⟨t, ts, h1, h2⟩ := stmtE_head s (c.sub 0)
-    exact ⟨t, _, by rw [fnLinesE_one, h1, List.cons_append], h2⟩
-  | cons s' ss' =>
-    obtain ⟨t, ts, h1, h2⟩ := stmt_head s (c.sub 0)
-    exact ⟨t, _, by rw [fnLinesE_cons, h1, List.cons_append], h2⟩
-
-/-! ### blocks at the end of the tokens -/
-
-def LinesRunE (ls : List (Statement N)) (c : Choices N) (n : Nat) (src : Str) (eof : Snap) : Prop :=
-  ∀ last, ∃ ss', stmtLoopBody (parser n) ⟨src, linesToksE ls c, last, eof, false⟩
-      = .ok (ss', ⟨src, [], lastSnap (linesToksE ls c) last, eof, false⟩) ∧
-    eraseSL ss' = stmtsToStmt ls
-
-theorem blockE_run (b : List (Statement N)) (c : Choices N) (n : Nat) (src last eof)
-    (hlast : SnapOK src last) (hlines : LinesRunE b c n src eof) :
-    ∃ B, parseBlock (parser n) ⟨src, linesToksE b c, last, eof, false⟩
-        = .ok (B, ⟨src, [], lastSnap (linesToksE b c) last, eof, false⟩) ∧
-      eraseB B = .mk default (stmtsToStmt b) := by
-  obtain ⟨ss', h1, h2⟩ := hlines last
-  refine ⟨.mk ⟨last.line, last.idx - last.lineStart⟩ ss', ?_, by simp [eraseB, h2]⟩
+/-- a header line end followed by the lines of its block, at the depth of the block -/
+theorem headerTail_eofDepth (eol : Eol) (b : List (Statement N)) (c2 c3 : Choices N) (k : Nat)
+    (linesE linesD : List (Tok N)) (hk : b = [] → k = 1) (hE : b = [] → linesE = [])
+    (hl : b ≠ [] → linesE = linesD) :
+    eolToks eol c2 ++ linesE = headerTailD k eol b c2 c3 linesD := by
   cases b with
-  | nil =>
-    simp only [linesE_nil] at h1 ⊢
-    simp [parseBlock, bind_run, currentLoc_ok _ _ _ _ _ hlast, mac_nil, h1, pure_run]
-  | cons s ss =>
-    obtain ⟨t, ts, hh, hk⟩ := linesE_head s ss c
-    have hnl : nextIn [.newline] (linesToksE (s :: ss) c) = false := by
-      rw [hh]; simpa [nextIn_cons] using (starts_not hk).1
-    simp [parseBlock, bind_run, currentLoc_ok _ _ _ _ _ hlast, mac_stop_kind hnl, h1, pure_run]
-
-def FnLinesRunE (ls : List (Statement N)) (c : Choices N) (n : Nat) (src : Str) (eof : Snap) : Prop :=
-  ∀ last, ∃ ss', fnStmtLoopBody (parser n) ⟨src, fnLinesToksE ls c, last, eof, false⟩
-      = .ok (ss', ⟨src, [], lastSnap (fnLinesToksE ls c) last, eof, false⟩) ∧
-    eraseSL ss' = stmtsToStmt ls
-
-theorem fnblockE_run (b : List (Statement N)) (c : Choices N) (n : Nat) (src last eof)
-    (hlast : SnapOK src last) (hlines : FnLinesRunE b c n src eof) :
-    ∃ B, parseFunctionBlock (parser n) ⟨src, fnLinesToksE b c, last, eof, false⟩
-        = .ok (B, ⟨src, [], lastSnap (fnLinesToksE b c) last, eof, false⟩) ∧
-      eraseB B = .mk default (stmtsToStmt b) := by
-  obtain ⟨ss', h1, h2⟩ := hlines last
-  refine ⟨.mk ⟨last.line, last.idx - last.lineStart⟩ ss', ?_, by simp [eraseB, h2]⟩
-  cases b with
-  | nil =>
-    simp only [fnLinesE_nil] at h1 ⊢
-    simp [parseFunctionBlock, bind_run, currentLoc_ok _ _ _ _ _ hlast, mac_nil, h1, pure_run]
-  | cons s ss =>
-    obtain ⟨t, ts, hh, hk⟩ := fnLinesE_head s ss c
-    have hnl : nextIn [.newline] (fnLinesToksE (s :: ss) c) = false := by
-      rw [hh]; simpa [nextIn_cons] using (starts_not hk).1
-    simp [parseFunctionBlock, bind_run, currentLoc_ok _ _ _ _ _ hlast, mac_stop_kind hnl, h1, pure_run]
-
-/-! ### the mutual induction at the end of the tokens -/
-
-/-- the statement `s`, the last thing in the input, is parsed from its tokens -/
-def StRunsE (s : Statement N) (c : Choices N) (n : Nat) (src : Str) (last eof : Snap) : Prop :=
-  ∃ s', parseStatement (parser n) ⟨src, s.toksE c, last, eof, false⟩
-      = .ok (some s', ⟨src, [], lastSnap (s.toksE c) last, eof, false⟩) ∧ eraseS s' = s.toStmt
-
-theorem stmtLoop_nil (rec : Rec N) (src last eof b) :
-    stmtLoopBody rec ⟨src, [], last, eof, b⟩ = .ok ([], ⟨src, [], last, eof, b⟩) := rfl
-theorem fnStmtLoop_nil (rec : Rec N) (src last eof b) :
-    fnStmtLoopBody rec ⟨src, [], last, eof, b⟩ = .ok ([], ⟨src, [], last, eof, b⟩) := rfl
+  | nil => rw [hk rfl, hE rfl, eolToks_punct]; simp [headerTailD, emptyTailD]
+  | cons s ss => rw [hl (by simp)]; rfl
 
 mutual
-theorem stmtE_run : (s : Statement N) → ∀ (c : Choices N) (n : Nat) (src last eof),
-    s.wf = true → (s.toksE c).length ≤ n → c.Sane src → c.NoIt → StRunsE s c n src last eof
-  | .simple s eol, c, n, src, last, eof, hw, hn, hsane, _ => by
-    rw [simple_wf, Bool.and_eq_true] at hw
-    obtain ⟨s', h1, h2⟩ := simple_run s c n [] src last eof hw.1 hn (simple_stop_nil s) hsane
-    exact ⟨s', by simpa [simple_toksE] using h1, h2⟩
-  | .ifS cond eol t none, c, n, src, last, eof, hw, hn, hsane, hit => by
-    rw [ifS_wf] at hw
-    simp only [Bool.and_eq_true] at hw
-    obtain ⟨⟨⟨hwc, hok⟩, hwt⟩, _⟩ := hw
-    unfold StRunsE
-    rw [ifS_none_toksE] at hn ⊢
-    simp only [List.length_cons, List.length_append] at hn
-    cases n with
-    | zero => omega
-    | succ n =>
-      have hcs := cond_stop cond eol (c.sub 2) (linesToksE t (c.sub 3)) hok (noIt_sub hit 2)
-      have he := fun last => expression_run cond (c.sub 1) (n + 1) _ src last eof false hwc (by omega) hcs
-      have heol := fun last => expectEol_run eol (c.sub 2) (linesToksE t (c.sub 3)) src last eof false
-      have hlines : LinesRunE t (c.sub 3) n src eof := fun last =>
-        linesE_run t (c.sub 3) n src last eof hwt (by omega) (sane_sub hsane 3) (noIt_sub hit 3)
-      obtain ⟨TB, hTB, hTs⟩ := blockE_run t (c.sub 3) n src ((c.sub 2).sub 1).here.after eof
-        (sane_here hsane [2, 1]) hlines
-      refine ⟨.ifS (logicalLay.ast cond (c.sub 1)) TB none, ?_, ?_⟩
-      · simp [parseStatement, current_run, map_run, parseIfStatement, bind_run, consume_cons, isKind, he,
-          heol, eol_last, hrec_block, hTB, mac_nil, pure_run]
-      · simp only [eraseS, hTs, expr_shape]
-        rfl
-  | .ifS cond eol t (some b), c, n, src, last, eof, hw, hn, hsane, hit => by
-    rw [ifS_wf] at hw
-    simp only [Bool.and_eq_true] at hw
-    obtain ⟨⟨⟨hwc, hok⟩, hwt⟩, hwe⟩ := hw
-    unfold StRunsE
-    rw [ifS_some_toksE] at hn ⊢
-    simp only [List.length_cons, List.length_append] at hn
-    have hlt := lines_len_le_block t (c.sub 3)
-    cases n with
-    | zero => omega
-    | succ n =>
-      have hcs := cond_stop cond eol (c.sub 2) (blockToks t (c.sub 3) ++ (tk (.kw .else_) (c.sub 4) ::
-        tk (.kw .newline) (c.sub 5) :: linesToksE b (c.sub 6))) hok (noIt_sub hit 2)
-      have he := fun last => expression_run cond (c.sub 1) (n + 1) _ src last eof false hwc (by omega) hcs
-      have heol := fun last => expectEol_run eol (c.sub 2) (blockToks t (c.sub 3) ++
-        (tk (.kw .else_) (c.sub 4) :: tk (.kw .newline) (c.sub 5) :: linesToksE b (c.sub 6))) src last eof false
-      have hlinesT : LinesRun t (c.sub 3) n (tk (.kw .else_) (c.sub 4) :: tk (.kw .newline) (c.sub 5) ::
-          linesToksE b (c.sub 6)) src eof := fun last =>
-        lines_run t (c.sub 3) n _ src last eof hwt (by omega) (Or.inr rfl) (sane_sub hsane 3) (noIt_sub hit 3)
-      obtain ⟨TB, hTB, hTs⟩ := block_run t (c.sub 3) n _ src ((c.sub 2).sub 1).here.after eof
-        (sane_here hsane [2, 1]) hlinesT
-      have hlinesE : LinesRunE b (c.sub 6) n src eof := fun last =>
-        linesE_run b (c.sub 6) n src last eof hwe (by omega) (sane_sub hsane 6) (noIt_sub hit 6)
-      obtain ⟨EB, hEB, hEs⟩ := blockE_run b (c.sub 6) n src (c.sub 5).here.after eof
-        (sane_here hsane [5]) hlinesE
-      refine ⟨.ifS (logicalLay.ast cond (c.sub 1)) TB (some EB), ?_, ?_⟩
-      · simp [parseStatement, current_run, map_run, parseIfStatement, bind_run, consume_cons, isKind, he,
-          heol, eol_last, hrec_block, hTB, mac_cons, expectTokenOrEnd, advance_cons, hEB, pure_run]
-      · simp only [eraseS, hTs, hEs, expr_shape]
-        rfl
-  | .whileS cond eol b, c, n, src, last, eof, hw, hn, hsane, hit => by
-    rw [whileS_wf] at hw
-    simp only [Bool.and_eq_true] at hw
-    obtain ⟨⟨hwc, hok⟩, hwb⟩ := hw
-    unfold StRunsE
-    rw [whileS_toksE] at hn ⊢
-    simp only [List.length_cons, List.length_append] at hn
-    cases n with
-    | zero => omega
-    | succ n =>
-      have hcs := cond_stop cond eol (c.sub 2) (linesToksE b (c.sub 3)) hok (noIt_sub hit 2)
-      have he := fun last => expression_run cond (c.sub 1) (n + 1) _ src last eof false hwc (by omega) hcs
-      have heol := fun last => expectEol_run eol (c.sub 2) (linesToksE b (c.sub 3)) src last eof false
-      have hlines : LinesRunE b (c.sub 3) n src eof := fun last =>
-        linesE_run b (c.sub 3) n src last eof hwb (by omega) (sane_sub hsane 3) (noIt_sub hit 3)
-      obtain ⟨B, hB, hBs⟩ := blockE_run b (c.sub 3) n src ((c.sub 2).sub 1).here.after eof
-        (sane_here hsane [2, 1]) hlines
-      refine ⟨.whileS (logicalLay.ast cond (c.sub 1)) B, ?_, ?_⟩
-      · have hd := loop_dispatch true (c.sub 0) (unparse cond (c.sub 1) ++ (eolToks eol (c.sub 2) ++
-          linesToksE b (c.sub 3))) (parser (n + 1)) src last eof false
-        simp only [if_true, if_false, Bool.false_eq_true] at hd
-        rw [hd]
-        simp [map_run, parseLoop, bind_run, consume_cons, isAnyKind, he, heol, eol_last, hrec_block, hB,
-          pure_run]
-      · simp only [eraseS, hBs, expr_shape]
-        rfl
-  | .untilS cond eol b, c, n, src, last, eof, hw, hn, hsane, hit => by
-    rw [untilS_wf] at hw
-    simp only [Bool.and_eq_true] at hw
-    obtain ⟨⟨hwc, hok⟩, hwb⟩ := hw
-    unfold StRunsE
-    rw [untilS_toksE] at hn ⊢
-    simp only [List.length_cons, List.length_append] at hn
-    cases n with
-    | zero => omega
-    | succ n =>
-      have hcs := cond_stop cond eol (c.sub 2) (linesToksE b (c.sub 3)) hok (noIt_sub hit 2)
-      have he := fun last => expression_run cond (c.sub 1) (n + 1) _ src last eof false hwc (by omega) hcs
-      have heol := fun last => expectEol_run eol (c.sub 2) (linesToksE b (c.sub 3)) src last eof false
-      have hlines : LinesRunE b (c.sub 3) n src eof := fun last =>
-        linesE_run b (c.sub 3) n src last eof hwb (by omega) (sane_sub hsane 3) (noIt_sub hit 3)
-      obtain ⟨B, hB, hBs⟩ := blockE_run b (c.sub 3) n src ((c.sub 2).sub 1).here.after eof
-        (sane_here hsane [2, 1]) hlines
-      refine ⟨.untilS (logicalLay.ast cond (c.sub 1)) B, ?_, ?_⟩
-      · have hd := loop_dispatch false (c.sub 0) (unparse cond (c.sub 1) ++ (eolToks eol (c.sub 2) ++
-          linesToksE b (c.sub 3))) (parser (n + 1)) src last eof false
-        simp only [if_true, if_false, Bool.false_eq_true] at hd
-        rw [hd]
-        simp [map_run, parseLoop, bind_run, consume_cons, isAnyKind, he, heol, eol_last, hrec_block, hB,
-          pure_run]
-      · simp only [eraseS, hBs, expr_shape]
-        rfl
-  | .func f p ps eol b, c, n, src, last, eof, hw, hn, hsane, hit => by
-    rw [func_wf] at hw
-    simp only [Bool.and_eq_true] at hw
-    obtain ⟨⟨⟨⟨⟨hwf, hwp⟩, hwps⟩, heolc⟩, hwb⟩, hbody⟩ := hw
-    unfold StRunsE
-    rw [func_toksE] at hn ⊢
-    simp only [List.length_cons, List.length_append] at hn
-    have hfp := var_toks_pos f (c.sub 0)
-    cases n with
-    | zero => omega
-    | succ n =>
-      have heh : nextIn (.word :: argSeps) (eolToks eol (c.sub 4) ++ fnLinesToksE b (c.sub 5)) = false := by
-        cases eol with
-        | none => simp [eolToks, nextIn_cons, argSeps]
-        | dot => simp [eolToks, nextIn_cons, argSeps]
-        | comma => simp at heolc
-      have hpnext : nextIn [.word] (paramsToks ps (c.sub 3) ++ (eolToks eol (c.sub 4) ++
-          fnLinesToksE b (c.sub 5))) = false := by
-        cases ps with
-        | nil => simpa [paramsToks] using nextIn_sub heh (ks' := [.word]) (by decide)
-        | cons v' vs' =>
-          simp only [paramsToks, List.append_assoc]
-          exact nextIn_of_head (sep_head _) (by decide)
-      have hx := ident_run (.var f) c (n + 1)
-        (tk (.kw .takes) (c.sub 1) :: (p.toks (c.sub 2) ++ (paramsToks ps (c.sub 3) ++
-          (eolToks eol (c.sub 4) ++ fnLinesToksE b (c.sub 5))))) src last eof
-        false hwf (by simpa [IdSpec.toks] using (by omega : (f.toks (c.sub 0)).length ≤ n + 1))
-        (by simp [nextIn_cons])
-      have hp := fun last => expectVar_run p (c.sub 2) (n + 1) (paramsToks ps (c.sub 3) ++
-        (eolToks eol (c.sub 4) ++ fnLinesToksE b (c.sub 5))) src last eof false hwp (by omega) hpnext
-      have hps := fun last => params_run ps (c.sub 3) (n + 1) (eolToks eol (c.sub 4) ++
-        fnLinesToksE b (c.sub 5)) src last eof false hwps (by omega) heh
-      have heol := fun last => expectEol_run eol (c.sub 4) (fnLinesToksE b (c.sub 5)) src last eof false
-      have hfl : FnLinesRunE b (c.sub 5) n src eof := fun last =>
-        fnlinesE_run b (c.sub 5) n src last eof hwb hbody (by omega) (sane_sub hsane 5) (noIt_sub hit 5)
-      obtain ⟨B, hB, hBs⟩ := fnblockE_run b (c.sub 5) n src ((c.sub 4).sub 1).here.after eof
-        (sane_here hsane [4, 1]) hfl
-      refine ⟨.func f.toName (f.range (c.sub 0)) ((p.toName, p.range (c.sub 2)) :: paramsR ps (c.sub 3)) B,
-        ?_, ?_⟩
-      · obtain ⟨t0, ts0, h1, h2⟩ := var_head_kind f (c.sub 0)
-        simp only [IdSpec.toks, IdSpec.toIdent, IdSpec.range] at hx
-        change expectIdentifier (parser (n + 1)) ⟨src, f.toks (c.sub 0) ++ _, last, eof, false⟩ = _ at hx
-        have hdisp : parseStatement (parser (n + 1)) ⟨src, f.toks (c.sub 0) ++ (tk (.kw .takes) (c.sub 1) ::
-            (p.toks (c.sub 2) ++ (paramsToks ps (c.sub 3) ++ (eolToks eol (c.sub 4) ++
-              fnLinesToksE b (c.sub 5))))), last, eof, false⟩
-            = (some <$> parseStatementStartingWithWord (parser (n + 1))) ⟨src, f.toks (c.sub 0) ++
-              (tk (.kw .takes) (c.sub 1) :: (p.toks (c.sub 2) ++ (paramsToks ps (c.sub 3) ++
-                (eolToks eol (c.sub 4) ++ fnLinesToksE b (c.sub 5))))), last, eof, false⟩ := by
-          rw [h1]
-          rcases h2 with h2 | h2 <;>
-            simp [parseStatement, current_run, bind_run, h2]
-        rw [hdisp]
-        simp [map_run, parseStatementStartingWithWord, bind_run, hx, current_run, asVariableName,
-          parseFunction, consume_cons, isKind, parseParameterList, hp, hps, heol, eol_last, hrec_fnblock, hB,
-          pure_run]
-      · simp only [eraseS, hBs, List.map_cons, paramsR_erase]
-        rfl
-theorem lastline_run : (s : Statement N) → ∀ (c0 c1 : Choices N) (n : Nat) (src last eof),
-    s.wf = true → (s.toksE c0).length ≤ n → c0.Sane src → c0.NoIt → c1.NoIt →
-    ∃ s', parseStatement (parser n) ⟨src, s.toksE c0 ++ s.eolToksE c1, last, eof, false⟩
-        = .ok (some s', ⟨src, s.eolToksE c1, lastSnap (s.toksE c0) last, eof, false⟩) ∧
-      eraseS s' = s.toStmt
-  | .simple s eol, c0, c1, n, src, last, eof, hw, hn, hsane, _, hit1 => by
-    have hst := stmt_stop_eolE (.simple s eol) c1 hw hit1
-    rw [simple_wf, Bool.and_eq_true] at hw
-    exact simple_run s c0 n _ src last eof hw.1 hn hst hsane
-  | .ifS cond eol t e, c0, c1, n, src, last, eof, hw, hn, hsane, hit0, _ => by
-    have := stmtE_run (.ifS cond eol t e) c0 n src last eof hw hn hsane hit0
-    simpa [StRunsE, Statement.eolToksE] using this
-  | .whileS cond eol b, c0, c1, n, src, last, eof, hw, hn, hsane, hit0, _ => by
-    have := stmtE_run (.whileS cond eol b) c0 n src last eof hw hn hsane hit0
-    simpa [StRunsE, Statement.eolToksE] using this
-  | .untilS cond eol b, c0, c1, n, src, last, eof, hw, hn, hsane, hit0, _ => by
-    have := stmtE_run (.untilS cond eol b) c0 n src last eof hw hn hsane hit0
-    simpa [StRunsE, Statement.eolToksE] using this
-  | .func f p ps eol b, c0, c1, n, src, last, eof, hw, hn, hsane, hit0, _ => by
-    have := stmtE_run (.func f p ps eol b) c0 n src last eof hw hn hsane hit0
-    simpa [StRunsE, Statement.eolToksE] using this
-theorem linesE_run : (ls : List (Statement N)) → ∀ (c : Choices N) (n : Nat) (src last eof),
-    stmtsWf ls = true → (linesToksE ls c).length ≤ n → c.Sane src → c.NoIt →
-    ∃ ss', stmtLoopBody (parser n) ⟨src, linesToksE ls c, last, eof, false⟩
-        = .ok (ss', ⟨src, [], lastSnap (linesToksE ls c) last, eof, false⟩) ∧
-      eraseSL ss' = stmtsToStmt ls
-  | [], c, n, src, last, eof, _, _, _, _ => ⟨[], rfl, rfl⟩
-  | [s], c, n, src, last, eof, hw, hn, hsane, hit => by
-    rw [stmtsWf_cons, Bool.and_eq_true] at hw
-    rw [linesE_one] at hn ⊢
-    simp only [List.length_append] at hn
-    obtain ⟨t0, ts0, hh, _⟩ := stmtE_head s (c.sub 0)
-    have hpos : 1 ≤ (s.toksE (c.sub 0)).length := by simp [hh]
-    cases n with
-    | zero => omega
-    | succ n =>
-      obtain ⟨s', hs1, hs2⟩ := lastline_run s (c.sub 0) (c.sub 1) (n + 1) src last eof hw.1 (by omega)
-        (sane_sub hsane 0) (noIt_sub hit 0) (noIt_sub hit 1)
-      refine ⟨[s'], ?_, by simp [eraseSL, hs2, stmtsToStmt_cons]; rfl⟩
-      rw [stmtLoopBody]
-      simp [bind_run, hs1, expectEol_eofE, hrec_stmtLoop, stmtLoop_nil, pure_run]
-  | s :: s2 :: ss, c, n, src, last, eof, hw, hn, hsane, hit => by
-    rw [stmtsWf_cons, Bool.and_eq_true] at hw
-    rw [linesE_cons] at hn ⊢
-    simp only [List.length_append] at hn
-    obtain ⟨t0, ts0, hh, _⟩ := stmt_head s (c.sub 0)
-    have hpos : 1 ≤ (s.toks (c.sub 0)).length := by simp [hh]
-    cases n with
-    | zero => omega
-    | succ n =>
-      obtain ⟨s', hs1, hs2⟩ := stmt_run s (c.sub 0) (n + 1)
-        (s.eolToks (c.sub 1) ++ linesToksE (s2 :: ss) (c.sub 2))
-        src last eof hw.1 (by omega) (stmt_stop_eol s (c.sub 1) _ hw.1 (noIt_sub hit 1)) (sane_sub hsane 0)
-        (noIt_sub hit 0)
-      obtain ⟨ss', hss1, hss2⟩ := linesE_run (s2 :: ss) (c.sub 2) n src
-        (lastSnap (s.eolToks (c.sub 1)) (lastSnap (s.toks (c.sub 0)) last)) eof hw.2 (by omega)
-        (sane_sub hsane 2) (noIt_sub hit 2)
-      refine ⟨s' :: ss', ?_, by simp [eraseSL, hs2, hss2, stmtsToStmt_cons]⟩
-      rw [stmtLoopBody]
-      simp [bind_run, hs1, expectEol_stmt, hrec_stmtLoop, hss1, pure_run]
-theorem fnlinesE_run : (ls : List (Statement N)) → ∀ (c : Choices N) (n : Nat) (src last eof),
-    stmtsWf ls = true → fnBodyOK ls = true → (fnLinesToksE ls c).length ≤ n → c.Sane src → c.NoIt →
-    ∃ ss', fnStmtLoopBody (parser n) ⟨src, fnLinesToksE ls c, last, eof, false⟩
-        = .ok (ss', ⟨src, [], lastSnap (fnLinesToksE ls c) last, eof, false⟩) ∧
-      eraseSL ss' = stmtsToStmt ls
-  | [], c, n, src, last, eof, _, _, _, _, _ => ⟨[], rfl, rfl⟩
-  | [s], c, n, src, last, eof, hw, _, hn, hsane, hit => by
-    rw [stmtsWf_cons, Bool.and_eq_true] at hw
-    rw [fnLinesE_one] at hn ⊢
-    obtain ⟨t0, ts0, hh, _⟩ := stmtE_head s (c.sub 0)
-    have hpos : 1 ≤ (s.toksE (c.sub 0)).length := by simp [hh]
-    cases n with
-    | zero => simp only [List.length_append] at hn; omega
-    | succ n =>
-      by_cases hie : s.isIfElse = true
-      · simp only [hie, if_true, List.append_nil] at hn ⊢
-        obtain ⟨s', hs1, hs2⟩ := stmtE_run s (c.sub 0) (n + 1) src last eof hw.1 hn (sane_sub hsane 0)
-          (noIt_sub hit 0)
-        have hft : isFunctionTerminator s' = true := by
-          rw [← isFunctionTerminator_erase, hs2, isFunctionTerminator_toStmt]; exact hie
-        refine ⟨[s'], ?_, by simp [eraseSL, hs2, stmtsToStmt_cons]; rfl⟩
-        rw [fnStmtLoopBody]
-        simp [bind_run, hs1, hft, pure_run]
-      · have hnt : s.isIfElse = false := by simpa using hie
-        simp only [hnt, Bool.false_eq_true, if_false, List.length_append] at hn ⊢
-        obtain ⟨s', hs1, hs2⟩ := lastline_run s (c.sub 0) (c.sub 1) (n + 1) src last eof hw.1 (by omega)
-          (sane_sub hsane 0) (noIt_sub hit 0) (noIt_sub hit 1)
-        have hft : isFunctionTerminator s' = false := by
-          rw [← isFunctionTerminator_erase, hs2, isFunctionTerminator_toStmt]; exact hnt
-        refine ⟨[s'], ?_, by simp [eraseSL, hs2, stmtsToStmt_cons]; rfl⟩
-        rw [fnStmtLoopBody]
-        simp [bind_run, hs1, hft, expectEol_eofE, hrec_fnStmtLoop, fnStmtLoop_nil, pure_run]
-  | s :: s2 :: ss, c, n, src, last, eof, hw, hok, hn, hsane, hit => by
-    rw [stmtsWf_cons, Bool.and_eq_true] at hw
-    rw [fnLinesE_cons] at hn ⊢
-    simp only [List.length_append] at hn
-    obtain ⟨t0, ts0, hh, _⟩ := stmt_head s (c.sub 0)
-    have hpos : 1 ≤ (s.toks (c.sub 0)).length := by simp [hh]
-    obtain ⟨hok1, hok2⟩ := fnBodyOK_tail hok
-    have hnt : s.isIfElse = false := hok2 (by simp)
-    cases n with
-    | zero => omega
-    | succ n =>
-      obtain ⟨s', hs1, hs2⟩ := stmt_run s (c.sub 0) (n + 1)
-        (s.eolToks (c.sub 1) ++ fnLinesToksE (s2 :: ss) (c.sub 2))
-        src last eof hw.1 (by omega) (stmt_stop_eol s (c.sub 1) _ hw.1 (noIt_sub hit 1)) (sane_sub hsane 0)
-        (noIt_sub hit 0)
-      have hft : isFunctionTerminator s' = false := by
-        rw [← isFunctionTerminator_erase, hs2, isFunctionTerminator_toStmt]; exact hnt
-      obtain ⟨ss', hss1, hss2⟩ := fnlinesE_run (s2 :: ss) (c.sub 2) n src
-        (lastSnap (s.eolToks (c.sub 1)) (lastSnap (s.toks (c.sub 0)) last)) eof hw.2 hok1 (by omega)
-        (sane_sub hsane 2) (noIt_sub hit 2)
-      refine ⟨s' :: ss', ?_, by simp [eraseSL, hs2, hss2, stmtsToStmt_cons]⟩
-      rw [fnStmtLoopBody]
-      simp [bind_run, hs1, hft, expectEol_stmt, hrec_fnStmtLoop, hss1, pure_run]
+theorem toksE_eq : (s : Statement N) → ∀ (c : Choices N), s.toksE c = s.toksD s.eofDepth c
+  | .simple s eol, c => by rw [simple_toksE, simple_toksD]
+  | .ifS cond eol t none, c => by
+    rw [ifS_none_toksE, ifS_none_toksD, eofDepth_ifS_none]
+    rw [headerTail_eofDepth eol t (c.sub 2) (c.sub 3) (linesEofDepth t) _ (linesToksD (linesEofDepth t) t (c.sub 3))
+      (fun h => by subst h; rfl) (fun h => by subst h; rfl) (fun _ => linesE_eq t (c.sub 3))]
+  | .ifS cond eol t (some b), c => by
+    rw [ifS_some_toksE, ifS_some_toksD, eofDepth_ifS_some]
+    cases b with
+    | nil => rfl
+    | cons s ss =>
+      rw [linesE_eq (s :: ss) (c.sub 6)]
+      rfl
+  | .whileS cond eol b, c => by
+    rw [whileS_toksE, whileS_toksD, eofDepth_whileS]
+    rw [headerTail_eofDepth eol b (c.sub 2) (c.sub 3) (linesEofDepth b) _ (linesToksD (linesEofDepth b) b (c.sub 3))
+      (fun h => by subst h; rfl) (fun h => by subst h; rfl) (fun _ => linesE_eq b (c.sub 3))]
+  | .untilS cond eol b, c => by
+    rw [untilS_toksE, untilS_toksD, eofDepth_untilS]
+    rw [headerTail_eofDepth eol b (c.sub 2) (c.sub 3) (linesEofDepth b) _ (linesToksD (linesEofDepth b) b (c.sub 3))
+      (fun h => by subst h; rfl) (fun h => by subst h; rfl) (fun _ => linesE_eq b (c.sub 3))]
+  | .func f p ps eol b, c => by
+    rw [func_toksE, func_toksD, eofDepth_func]
+    rw [headerTail_eofDepth eol b (c.sub 4) (c.sub 5) (fnLinesEofDepth b) _
+      (fnLinesToksD (fnLinesEofDepth b) b (c.sub 5))
+      (fun h => by subst h; rfl) (fun h => by subst h; rfl) (fun _ => fnLinesE_eq b (c.sub 5))]
+theorem linesE_eq : (ls : List (Statement N)) → ∀ (c : Choices N),
+    linesToksE ls c = linesToksD (linesEofDepth ls) ls c
+  | [], c => by rw [linesE_nil, linesD_nil]
+  | [s], c => by rw [linesE_one, linesEofDepth_one, linesD_one_succ, toksE_eq s (c.sub 0)]
+  | s :: s' :: ss, c => by
+    rw [linesE_cons, linesEofDepth_cons, linesD_cons, linesE_eq (s' :: ss) (c.sub 2)]
+theorem fnLinesE_eq : (ls : List (Statement N)) → ∀ (c : Choices N),
+    fnLinesToksE ls c = fnLinesToksD (fnLinesEofDepth ls) ls c
+  | [], c => by rw [fnLinesE_nil, fnLinesD_nil]
+  | [s], c => by
+    rw [fnLinesE_one, fnLinesEofDepth_one, fnLinesD_one]
+    by_cases hie : s.isIfElse = true
+    · simp only [hie, if_true, List.append_nil]
+      exact toksE_eq s (c.sub 0)
+    · have hnt : s.isIfElse = false := by simpa using hie
+      simp only [hnt, Bool.false_eq_true, if_false]
+      rw [linesD_one_succ, toksE_eq s (c.sub 0)]
+  | s :: s' :: ss, c => by
+    rw [fnLinesE_cons, fnLinesEofDepth_cons, fnLinesD_cons, fnLinesE_eq (s' :: ss) (c.sub 2)]
 end
 
-/-! ### programs that end with the tokens -/
-
-theorem topLoop_nil (rec : Rec N) (src last eof b) :
-    topLoopBody rec ⟨src, [], last, eof, b⟩ = .ok ([], ⟨src, [], last, eof, b⟩) := rfl
-
-theorem progE_not_else (bs : List (List (Statement N))) (c : Choices N) (hw : progWf bs = true) :
-    nextIn [.else_] (progToksE bs c) = false := by
-  have hb : ∀ k (c' : Choices N) (X : List (Tok N)), nextIn [.else_] X = false →
-      nextIn [.else_] (blanksToks k c' ++ X) = false := by
-    intro k c' X hX
-    cases k with
-    | zero => simpa [blanksToks] using hX
-    | succ k' => simp [blanksToks, nextIn_cons]
-  cases bs with
-  | nil => rfl
-  | cons b bs =>
-    simp only [progWf, List.all_cons, Bool.and_eq_true, Bool.not_eq_true', List.isEmpty_eq_false_iff] at hw
-    cases bs with
-    | nil =>
-      rw [progToksE]
-      apply hb
-      cases b with
-      | nil => exact absurd rfl hw.1.1
-      | cons s ss =>
-        obtain ⟨t, ts, hh, hk⟩ := linesE_head s ss (c.sub 1)
-        rw [hh]; simpa [nextIn_cons] using (starts_not hk).2
-    | cons b' bs' =>
-      rw [progToksE]
-      apply hb
-      exact lines_not_else b hw.1.1 (c.sub 1) _
-
-theorem prog_runE : ∀ (bs : List (List (Statement N))) (c : Choices N) (n : Nat) (src : Str) (last eof : Snap),
-    progWf bs = true → (progToksE bs c).length ≤ n → SnapOK src last → c.Sane src → c.NoIt →
-    TopRuns n src (progToksE bs c) last eof (progToAst bs) := by
-  intro bs
-  induction bs with
-  | nil =>
-    intro c n src last eof _ _ _ _ _
-    exact ⟨[], _, rfl, rfl, rfl⟩
-  | cons b bs ih =>
-    intro c n src last eof hw hn hl hs hit
-    simp only [progWf, List.all_cons, Bool.and_eq_true, Bool.not_eq_true', List.isEmpty_eq_false_iff] at hw
-    obtain ⟨⟨hne, hwb⟩, hwbs⟩ := hw
-    have hwbs' : progWf bs = true := by simpa [progWf] using hwbs
-    cases bs with
-    | nil =>
-      rw [progToksE] at hn ⊢
-      simp only [List.length_append, blanks_len] at hn
-      have hXe : nextIn [.else_] (linesToksE b (c.sub 1)) = false := by
-        cases b with
-        | nil => exact absurd rfl hne
-        | cons s ss =>
-          obtain ⟨t, ts, hh, hk⟩ := linesE_head s ss (c.sub 1)
-          rw [hh]; simpa [nextIn_cons] using (starts_not hk).2
-      refine blanks_run _ src eof _ ?_ hXe (c.sub 0).choice (c.sub 0) n last (by omega) hl (sane_sub hs 0)
-      intro m last' hm hl'
-      cases b with
-      | nil => exact absurd rfl hne
-      | cons s ss =>
-        obtain ⟨t, ts, hh, hk⟩ := linesE_head s ss (c.sub 1)
-        have hnl : nextIn [.newline] (linesToksE (s :: ss) (c.sub 1)) = false := by
-          rw [hh]; simpa [nextIn_cons] using (starts_not hk).1
-        cases m with
-        | zero => rw [hh] at hm; simp at hm
-        | succ m =>
-          obtain ⟨ss', hl1, hl2⟩ := linesE_run (s :: ss) (c.sub 1) (m + 1) src last' eof hwb hm
-            (sane_sub hs 1) (noIt_sub hit 1)
-          have hss' : ss' ≠ [] := by
-            intro h; subst h
-            simp [eraseSL, stmtsToStmt_cons] at hl2
-          refine ⟨[.mk ⟨last'.line, last'.idx - last'.lineStart⟩ ss'],
-            ⟨src, [], lastSnap (linesToksE (s :: ss) (c.sub 1)) last', eof, false⟩, ?_, rfl, ?_⟩
-          · rw [topLoopBody, bind_run, current_run]
-            simp only [hh, List.head?_cons]
-            rw [← hh]
-            simp [bind_run, parseBlock, currentLoc_ok _ _ _ _ _ hl', mac_stop_kind hnl, hl1, pure_run,
-              topLoopAfterBlock, currentMatches_nil, hrec_topLoop, topLoop_nil, Block.isEmpty, hss']
-          · simp [eraseB, hl2, progToAst]
-    | cons b' bs' =>
-      rw [progToksE] at hn ⊢
-      simp only [List.length_append, List.length_cons, blanks_len] at hn
-      exact prog_step b hne hwb (progToksE (b' :: bs') (c.sub 3)) src eof (progToAst (b' :: bs'))
-        (fun m last' hm hl' => ih (c.sub 3) m src last' eof hwbs' hm hl' (sane_sub hs 3) (noIt_sub hit 3))
-        (progE_not_else (b' :: bs') (c.sub 3) hwbs') (c.sub 0) (c.sub 1) (c.sub 2) (c.sub 0).choice n last
-        (by omega) hl (sane_sub hs 0) (sane_sub hs 1) (noIt_sub hit 1) (sane_here hs [2])
+theorem progToksE_eq : ∀ (bs : List (List (Statement N))) (c : Choices N),
+    progToksE bs c = progToksD (progEofDepth bs) bs c
+  | [], c => rfl
+  | [b], c => by
+    rw [progToksE, progToksD, linesE_eq b (c.sub 1)]
+    rfl
+  | b :: b' :: bs, c => by
+    rw [progToksE, progToksD, progToksE_eq (b' :: bs) (c.sub 3)]
+    rfl
 
 theorem program_roundtripE (bs : List (List (Statement N))) (c : Choices N) (st : PState N) (n : Nat)
     (hwf : progWf bs = true) (htoks : st.toks = progToksE bs c) (hflag : st.parsingList = false)
-    (hlast : SnapOK st.src st.last) (hsane : c.Sane st.src) (hit : c.NoIt)
+    (hlast : SnapOK st.src st.last) (hsane : c.Sane st.src) (hfit : progFitsE st.src bs c)
     (hn : (progToksE bs c).length ≤ n) :
     ∃ p st', parseProgramBody (parser n) st = .ok (p, st') ∧ p.code.map eraseB = progToAst bs ∧
       st'.toks = [] := by
-  obtain ⟨src, toks, last, eof, pl⟩ := st
-  simp only at htoks hflag hsane hlast
-  subst htoks hflag
-  obtain ⟨bl, st', h1, h2, h3⟩ := prog_runE bs c n src last eof hwf hn hlast hsane hit
-  exact ⟨⟨bl⟩, st', by simp [parseProgramBody, bind_run, h1, pure_run], h3, h2⟩
+  rw [progToksE_eq] at htoks hn
+  exact program_roundtripD (progEofDepth bs) bs c st n hwf htoks hflag hlast hsane hfit hn
 
 theorem statement_roundtripE (s : Statement N) (c : Choices N) (st : PState N) (n : Nat)
     (hwf : s.wf = true) (htoks : st.toks = s.toksE c) (hflag : st.parsingList = false)
-    (hsane : c.Sane st.src) (hit : c.NoIt) (hn : (s.toksE c).length ≤ n) :
+    (hsane : c.Sane st.src) (hfit : s.FitsE st.src c) (hn : (s.toksE c).length ≤ n) :
     ∃ s' st', parseStatement (parser n) st = .ok (some s', st') ∧ eraseS s' = s.toStmt ∧ st'.toks = [] := by
-  obtain ⟨src, toks, last, eof, pl⟩ := st
-  simp only at htoks hflag hsane
-  subst htoks hflag
-  obtain ⟨s', h1, h2⟩ := stmtE_run s c n src last eof hwf hn hsane hit
-  exact ⟨s', _, h1, h2, rfl⟩
+  rw [toksE_eq] at htoks hn
+  exact statement_roundtripD s.eofDepth s c st n hwf htoks hflag hsane hfit hn
 
 end Grammar
 end Rrss
